@@ -3,35 +3,54 @@
 Sync:  falcon/util/reader.py  BufferedReader   (pure Python; the Cython twin cyutil/reader.pyx is out of reach)
 Async: falcon/asgi/reader.py  BufferedReader
 
-Ghost view (sync).  `src` (prophecy) is everything the source callable will still
-deliver; the stub `ReadFunc` is a cursor `pos` over it.  The reader's abstract
-value is the byte string it can still hand out,
+Ghost view.  `src` (prophecy) is everything the source will still deliver.  The
+reader's abstract value is the byte string it can still hand out,
 
-    V(self) = _buffer[_buffer_pos:_buffer_len] ++ src[pos : pos + _max_bytes_remaining]
+    sync:   V(self) = _buffer[_buffer_pos:_buffer_len] ++ src[pos : pos + _max_bytes_remaining]
+    async:  V(self) = _buffer[_buffer_pos:_buffer_len] ++ (chunks the normalised source has not delivered yet)
 
 and every operation is specified as the same operation on a flat cursor over V:
 it returns a prefix V[:k] and leaves V[k:] ("consumed data is never returned
-twice or skipped").  Representation invariant, assumed at entry and re-proved
-(one clause per conjunct) at exit of every operation:
+twice or skipped"); read-until stops at the FIRST occurrence of the delimiter in
+V, at the size cap or at the end; tell() = bytes handed out; eof only at the end.
+Representation invariant, assumed at entry and re-proved (one clause per
+conjunct) at exit of every operation:
 
-    _buffer_len == len(_buffer)      0 <= _buffer_pos <= _buffer_len      _max_bytes_remaining >= 0
+    _buffer_len == len(_buffer)      0 <= _buffer_pos <= _buffer_len      _max_bytes_remaining >= 0  (sync)
 
-Source contract (io.RawIOBase.read / wsgi.input): read(n) with n > 0 returns a
-prefix of the rest of `src` of length <= n, empty only at the end of the source;
-the reader must never call it with n <= 0 nor with n > _max_bytes_remaining
-("reads never exceed the declared maximum length").
+Sync source contract (io.RawIOBase.read / wsgi.input): read(n) with n > 0 returns
+a prefix of the rest of `src` of length <= n, empty only at the end of the
+source; the reader must never call it with n <= 0 nor with n >
+_max_bytes_remaining ("reads never exceed the declared maximum length") -- an
+obligation generated at every call of the stub.
 
-Proof structure (modular).  `_perform_read` is proved against an exact,
-deterministic contract (its result does not depend on how the source chunks its
-answers); every other function is executed from its source with that contract in
-place of `_perform_read` (everything else inlined), loops by invariants.
+Proof structure (modular).
+  Part A  bytes as SMT strings (cvc5): _perform_read with its loop invariant (the one function that receives bytes from
+          outside), __init__, _normalize_size.
+  Part B  sync reader over the *window domain* (see there): _perform_read again, _fill_buffer, peek, _read, read,
+          _read_until (with _finalize_read_until/_read/peek/_fill_buffer inlined, loop invariant incl. "no delimiter
+          starts in the backlog"), read_until, pipe, exhaust, pipe_until, readline, readlines, delimit.
+          `_perform_read` is replaced by its exact, deterministic contract everywhere else; composite operations use
+          the proved contracts of the operations they call.
+  Part C  async reader: every non-generator method; the generators _iter_normalized/_iter_with_buffer/_iter_delimited
+          run eagerly with a clause at EVERY yield ("exactly the yielded bytes are removed from the view"); _read_from,
+          read, readall, read_until, pipe, exhaust, pipe_until against any generator keeping that contract.
+  bounded(tier, seed, overlay)   differential test of both real readers against a flat cursor (labelled, never counted as proved).
+
+Refuted on the unchanged tree (genuine, replayed on the real code through public operations):
+  falcon.util.reader:BufferedReader._read#invariant-buffer-pos-within-buffer
+      source shorter than max_stream_len: BufferedReader(io.BytesIO(b'').read, 1, 2).read() leaves _buffer_pos == 1 > _buffer_len == 0;
+      BufferedReader(io.BytesIO(b'a').read, 10, 4): read(3); sub = delimit(b'--'); sub.read_until(b'abc') never returns.
+  falcon.asgi.reader:BufferedReader._iter_delimited#yielded-bytes-are-consumed
+      delimiter never found before the source ends: the final `yield self._buffer` does not consume it -- read_until(d) and a
+      following read() both return the bytes, tell() lags.
 """
 from __future__ import annotations
 
 import z3
 
-from pyvc.core import And, Iff, Implies, Ite, Joined, Len, Max, Min, Not, Or, SList, SStr, Unreached, cur, is_sym, mk_str, _i, _s
-from pyvc.harness import Ready, harness, stubclass
+from pyvc.core import And, Iff, Implies, Ite, Len, Max, Min, Not, Or, SStr, Unreached, cur, is_sym, mk_str, _i, _s
+from pyvc.harness import harness, stubclass
 from pyvc.interp import LoopSpec
 
 PROP = 'C14'
@@ -50,15 +69,6 @@ def Sub(s, i, n):
     if not (is_sym(s) or is_sym(i) or is_sym(n)):
         return s[i : i + n] if n > 0 else s[:0]
     return mk_str(z3.SubString(_s(s), _i(i), _i(n)), 'bytes')
-
-
-def Find(s, sub, start=0):
-    """bytes.find(sub, start) for a non-empty sub and start >= 0."""
-    if not (is_sym(s) or is_sym(sub) or is_sym(start)):
-        return s.find(sub, start)
-    if not isinstance(s, SStr):
-        s = SStr(_s(s), 'bytes')
-    return s.find(sub, start)
 
 
 # ---------------------------------------------------------------------------
@@ -111,18 +121,6 @@ class GhostBytesIO:
         return self.value
 
 
-@stubclass
-class Sink:
-    """A destination with write(): accumulates what was written (ghost)."""
-
-    def __init__(self):
-        self.written = b''
-
-    def write(self, data):
-        self.written = self.written + data if isinstance(self.written, SStr) or not isinstance(data, SStr) else data.__radd__(self.written)
-        return Len(data)
-
-
 def _bytesio_model(reg):
     import io
 
@@ -133,7 +131,7 @@ class St:
     pass
 
 
-def mk(v, rem_positive=None):
+def mk(v):
     """A sync reader in an arbitrary state satisfying the representation invariant."""
     st = St()
     st.src = v.bytes('src')
@@ -171,28 +169,6 @@ def check_inv(v, s):
     v.check('invariant-buffer-len-is-len-of-buffer', bl == Len(buf))
     v.check('invariant-buffer-pos-within-buffer', And(0 <= bp, bp <= bl))
     v.check('invariant-budget-nonnegative', rem >= 0)
-
-
-def inv_term(buf, bl, bp, rem, rf):
-    return And(bl == Len(buf), 0 <= bp, bp <= bl, rem >= 0, 0 <= rf.pos, rf.pos <= Len(rf.src))
-
-
-def coupled_term(st, buf, bl, bp, rem, rf, c):
-    """The state is the flat cursor over V0 at offset c:  the look-ahead window is V0[c : c+nB], the source cursor
-    stands right behind it, and the budget is what is left of the declared length (or 0 once the end of the
-    source has been seen).  Implies  V(state) == V0[c:]  (lemma `coupled_implies_view`)."""
-    nB = bl - bp
-    pos = rf.pos
-    return And(
-        bl == Len(buf), 0 <= bp, bp <= bl, rem >= 0, c >= 0,
-        Sub(buf, bp, nB) == Sub(st.V0, c, nB),
-        pos == c + nB - st.nB, 0 <= pos, pos <= Len(st.src), pos <= st.rem,
-        Or(rem == st.rem - pos, And(rem == 0, pos == Len(st.src))),
-    )
-
-
-def coupled(v, st, c):
-    return coupled_term(st, *fields(v, st.s), c)
 
 
 def frame_buffer(v, st):
@@ -263,31 +239,6 @@ def perform_read(v):
         v.cover('loops-on-a-short-read')
 
 
-def pr_contract(I, self, size):
-    """Callee contract of _perform_read (proved by `perform_read` above), exact and deterministic."""
-    rf = self._fields['_read_func']
-    rem = self._fields['_max_bytes_remaining']
-    r, m = pr_result(size, rem, rf.src, rf.pos)
-    out = Sub(rf.src, rf.pos, r)
-    rf.pos = rf.pos + r
-    self._fields['_max_bytes_remaining'] = Ite(r == m, rem - r, 0)
-    return out
-
-
-def _fast(ex, ms=1500):
-    """String obligations: give z3 a short in-process budget; what it leaves `unknown` goes to the cvc5 portfolio (parallel)."""
-    ex.check_timeout_ms = ms
-    ex.branch_timeout_ms = 400
-    ex.incremental_timeout_ms = 250
-
-
-def _with_pr(reg, ex):
-    _fast(ex)
-    _bytesio_model(reg)
-    reg.stubs[SR + '._perform_read'] = pr_contract
-
-
-
 # ---------------------------------------------------------------------------
 # __init__
 
@@ -315,54 +266,11 @@ def init(v):
 
 
 # ---------------------------------------------------------------------------
-# _fill_buffer / peek / _normalize_size / _read / read   (flat cursor over V)
-
-
-@harness(PROP, SR + '._fill_buffer', setup=_with_pr)
-def fill_buffer(v):
-    st = mk(v)
-    s = st.s
-    out = v.call(s)
-    v.check('no-exception', out.exc is None)
-    if out.exc is not None:
-        return
-    buf, bl, bp, rem, rf = fields(v, s)
-    check_inv(v, s)
-    v.check('view-unchanged', view(v, s) == st.V0)
-    # afterwards the look-ahead window holds a whole chunk, or everything there is
-    v.check('buffered-at-least-a-chunk-or-all-of-the-view', bl - bp == Ite(st.nB >= st.cs, st.nB, Min(st.cs, st.nV)))
-    v.check('buffered-bytes-are-a-prefix-of-the-view', Sub(buf, bp, bl - bp) == Sub(st.V0, 0, bl - bp))
-    if st.nB < st.cs:
-        v.cover('refills')
+# _normalize_size
 
 
 def peek_size(size, cs):
     return Ite(Or(size < 0, size > cs), cs, size)
-
-
-@harness(PROP, SR + '.peek', setup=_with_pr, inline=[SR + '._fill_buffer'])
-def peek(v):
-    st = mk(v)
-    s = st.s
-    dflt = v.choose(2, 'size-given?')
-    size = v.int('size') if dflt else -1
-    out = v.call(s, size) if dflt else v.call(s)
-    v.check('no-exception', out.exc is None)
-    if out.exc is not None:
-        return
-    n = peek_size(size, st.cs)
-    check_inv(v, s)
-    v.check('returns-the-next-bytes-of-the-view-up-to-the-clamped-size', out.value == Sub(st.V0, 0, n))
-    v.check('length-is-min-of-clamped-size-and-view', Len(out.value) == Min(n, st.nV))
-    v.check('view-unchanged', view(v, s) == st.V0)
-    v.cover('returns')
-
-
-def norm_size(size, st):
-    mx = st.rem + st.nB
-    if size is None:
-        return mx
-    return Ite(Or(size == -1, size > mx), mx, size)
 
 
 def size_arg(v, allow_none=True):
@@ -392,52 +300,6 @@ def normalize_size(v):
         v.check('covers-min-of-size-and-view', k >= Min(size, st.nV))
     else:
         v.check('no-size-means-everything', And(k == st.rem + st.nB, k >= st.nV))
-
-
-def post_read(v, st, out, k):
-    """Flat cursor: returned V0[:k], left V0[k:]."""
-    s = st.s
-    v.check('no-exception', out.exc is None)
-    if out.exc is not None:
-        return False
-    ret = out.value
-    v.check('returns-the-next-bytes-of-the-view', ret == Sub(st.V0, 0, k))
-    v.check('length-is-min-of-size-and-view', Len(ret) == Min(k, st.nV))
-    v.check('view-advances-by-exactly-the-returned-bytes', view(v, s) == Sub(st.V0, Len(ret), st.nV))
-    check_inv(v, s)
-    return True
-
-
-@harness(PROP, SR + '._read', setup=_with_pr)
-def _read(v):
-    st = mk(v)
-    k = v.int('size', 0)  # any size >= 0 (_read_until passes sizes beyond the normalized bound)
-    out = v.call(st.s, k)
-    if post_read(v, st, out, k):
-        if st.nB >= k:
-            v.cover('from-buffer')
-        elif st.nB == 0:
-            if k >= st.cs:
-                v.cover('pass-through')
-        elif k - st.nB >= st.cs:
-            v.cover('buffer-plus-large-read')
-        else:
-            v.cover('buffer-plus-refill')
-
-
-@harness(PROP, SR + '.read', setup=_with_pr, inline=[SR + '._normalize_size', SR + '._read'])
-def read(v):
-    st = mk(v)
-    size, kind = size_arg(v)
-    dflt = kind == 0 and v.choose(2, 'size-omitted?')
-    out = v.call(st.s) if dflt else v.call(st.s, size)
-    k = norm_size(size, st)
-    if post_read(v, st, out, k):
-        if kind != 1:
-            v.check('unsized-read-returns-the-whole-view', And(out.value == st.V0, Len(view(v, st.s)) == 0))
-        else:
-            v.check('sized-read-bounded', Len(out.value) <= size)
-        v.cover('returns')
 
 
 # ===========================================================================
@@ -962,6 +824,7 @@ def w_peek(v):
     wcheck_inv(v, st.s)
     v.check('returns-the-next-bytes-of-the-view-up-to-the-clamped-size', is_window(st.w, out.value, st.a0, Min(n, st.nV)))
     v.check('view-unchanged', wcoupled(v, st, 0))
+    v.check('returned-bytes-are-buffered', v.get(st.s, '_buffer_len') - v.get(st.s, '_buffer_pos') >= Len(out.value))
     v.cover('returns')
 
 
@@ -1000,7 +863,7 @@ def wnorm_size(size, st):
     return Ite(Or(size == -1, size > mx), mx, size)
 
 
-@harness(PROP, SR + '.read', name='w_read', setup=_w, inline=[SR + '._normalize_size', SR + '._read'])
+@harness(PROP, SR + '.read', name='w_read', setup=lambda reg, ex: _w2(reg, ex), inline=[SR + '._normalize_size'])
 def w_read(v):
     st = mkw(v)
     size, kind = size_arg(v)
@@ -1020,7 +883,7 @@ RU_INLINE = [SR + '._finalize_read_until', SR + '._read', SR + '.peek', SR + '._
 
 
 def _ru_loop(reg, ex):
-    _w(reg, ex)
+    _w2(reg, ex)
 
     def linv(L):
         s = L['self']
@@ -1033,10 +896,16 @@ def _ru_loop(reg, ex):
             is_window(st.w, J, st.a0, have),  # the backlog is what was taken so far, in order ...
             wcoupled_term(st, s._buffer, s._buffer_len, s._buffer_pos, s._max_bytes_remaining, rf, have),  # ... the reader stands right behind it
             have <= L['size'],
-            Or(st.j0 == -1, st.j0 >= st.a0 + have),  # ... and no occurrence of the delimiter starts inside the backlog
+            none_before(st, have),  # ... and no occurrence of the delimiter (lying wholly inside the view) starts inside the backlog
         )
 
     reg.loops[(SR + '._read_until', 'while#0')] = LoopSpec(inv=linv, lists={'result': WinList.of})
+
+
+def none_before(st, c):
+    """No occurrence of the delimiter that lies wholly inside the view V0 starts before offset c."""
+    j0 = st.j0
+    return Or(j0 == -1, j0 + st.w.dl > st.end, j0 >= st.a0 + c)
 
 
 def until_spec(st, x, size):
@@ -1089,8 +958,7 @@ def wpost_until(v, st, out, size, consume):
 
 def w__read_until(v):
     st = mkw(v, delim='any')
-    size = v.int('size', 0)
-    v.assume(size <= st.rem + st.nB)  # sizes come from _normalize_size
+    size = v.int('size', 0)  # any size >= 0: pipe_until passes min(chunk_size, remaining), which may exceed what is left
     consume = bool(v.choose(2, 'consume_delimiter'))
     st.j0 = st.w.first(st.a0) if not v.concrete else None
     out = v.call(st.s, st.delim, size, consume)
@@ -1101,6 +969,2697 @@ for _c in (0, 1):
     harness(PROP, SR + '._read_until', name='w__read_until[consume=%d]' % _c, setup=_ru_loop, inline=RU_INLINE, fix={'consume_delimiter': _c})(w__read_until)
 
 
-ASSUMPTIONS = []
-NOT_DECIDED = []
-TRUSTED = []
+# --- callee contracts (each proved by the harness named in its docstring), used at call sites of the composite operations ---
+
+
+def offset(st, s_fields):
+    """The flat-cursor offset c of a coupled state (solves  base + pos == a0 + c + nB  for c)."""
+    buf, bl, bp, rem, rf = s_fields
+    return st.w.base + rf.pos - (bl - bp) - st.a0
+
+
+def obj_fields(o):
+    f = o._fields
+    return f['_buffer'], f['_buffer_len'], f['_buffer_pos'], f['_max_bytes_remaining'], f['_read_func']
+
+
+def havoc_state(ctx, st, o):
+    """Any representation whatsoever (the caller then assumes what the callee contract says about it)."""
+    buf = st.w.fresh_win(ctx, 'st_buffer')
+    o._fields['_buffer'] = buf
+    o._fields['_buffer_len'] = buf.b - buf.a
+    o._fields['_buffer_pos'] = ctx.fresh_int('st_buffer_pos')
+    o._fields['_max_bytes_remaining'] = ctx.fresh_int('st_rem')
+    o._fields['_read_func'].pos = ctx.fresh_int('st_pos')
+
+
+def move_to(ctx, st, o, c):
+    """Post-state of a flat-cursor contract: some representation of the cursor at offset c."""
+    havoc_state(ctx, st, o)
+    ctx.assume(wcoupled_term(st, *obj_fields(o), c))
+
+
+def _norm(o, size):
+    buf, bl, bp, rem, rf = obj_fields(o)
+    mx = rem + bl - bp
+    if size is None:
+        return mx
+    return Ite(Or(size == -1, size > mx), mx, size)
+
+
+def c_read(I, self, size=-1):
+    """BufferedReader.read (harness w_read): returns V[:k], leaves V[k:]."""
+    st = self._fields['_read_func'].st
+    c = offset(st, obj_fields(self))
+    n = Min(_norm(self, size), st.nV - c)
+    move_to(I.ctx, st, self, c + n)
+    return st.w.win(st.a0 + c, st.a0 + c + n)
+
+
+def c_peek(I, self, size=-1):
+    """BufferedReader.peek (harness w_peek): returns V[:n'] with n' = size clamped to 0..chunk_size, V unchanged, the returned bytes are buffered."""
+    st = self._fields['_read_func'].st
+    c = offset(st, obj_fields(self))
+    n = Min(peek_size(size, self._fields['_chunk_size']), st.nV - c)
+    move_to(I.ctx, st, self, c)
+    I.ctx.assume(self._fields['_buffer_len'] - self._fields['_buffer_pos'] >= n)
+    return st.w.win(st.a0 + c, st.a0 + c + n)
+
+
+def c__read_until(I, self, delimiter, size, consume_delimiter):
+    """BufferedReader._read_until (harnesses w__read_until[consume=0/1])."""
+    st = self._fields['_read_func'].st
+    w = st.w
+    ctx = I.ctx
+    ctx.check(SR + '._read_until#pre:size-nonnegative', size >= 0)
+    if not (delimiter is w.delim):
+        raise Unreached('_read_until with a delimiter other than the one of this harness')
+    if ctx.branch(_b(Or(w.dl < 1, w.dl > self._fields['_chunk_size'])), label='bad-delimiter'):
+        ctx.raise_py(ValueError, 'delimiter length must be within [1, chunk_size]')
+    c = offset(st, obj_fields(self))
+    x = st.a0 + c
+    found, j, tgt = until_spec(st, x, size)
+    ret = w.win(x, x + tgt)
+    if consume_delimiter:
+        if ctx.branch(_b(delim_at(st, x + tgt)), label='delimiter-follows'):
+            move_to(ctx, st, self, c + tgt + w.dl)
+        else:
+            move_to(ctx, st, self, c + tgt)
+            ctx.raise_py(I.load_name('DelimiterError', _frame_of(SM)), 'expected delimiter missing')
+    else:
+        move_to(ctx, st, self, c + tgt)
+    return ret
+
+
+def c_read_until(I, self, delimiter, size=-1, consume_delimiter=False):
+    """BufferedReader.read_until (harness w_read_until): _read_until on the normalized size."""
+    return c__read_until(I, self, delimiter, _norm(self, size), consume_delimiter)
+
+
+def _b(x):
+    from pyvc.core import _b as b
+
+    return z3.simplify(b(x))
+
+
+def _frame_of(modname):
+    import importlib
+
+    from pyvc.interp import Frame
+
+    return Frame(None, importlib.import_module(modname), None)
+
+
+def _read_assuming_its_contract(I, self, size):
+    """_read executed from its source; at its return the callers rely on _read's own post-condition (harness w__read),
+    in particular on the clause `invariant-buffer-pos-within-buffer` -- a violation is reported once, at _read."""
+    c = I.closure_for(SM, 'BufferedReader._read', self._cls)
+    r = I.invoke(c, [self, size], {})
+    f = self._fields
+    I.ctx.assume(And(0 <= f['_buffer_pos'], f['_buffer_pos'] <= f['_buffer_len']))
+    return r
+
+
+def _w2(reg, ex):
+    _w(reg, ex)
+    reg.stubs[SR + '._read'] = _read_assuming_its_contract
+
+
+# --- pipe / exhaust ---------------------------------------------------------------------------------------------------------
+
+
+def _pipe_loop(reg, ex):
+    _w2(reg, ex)
+
+    def linv(L):
+        s = L['self']
+        rf = s._read_func
+        st = rf.st
+        fs = obj_fields(s)
+        c = offset(st, fs)
+        d = L['destination']
+        return And(wcoupled_term(st, *fs, c), c <= st.nV, True if d is None else is_window(st.w, d.written, st.a0, c))
+
+    def havoc(ctx, L):
+        s = L['self']
+        havoc_state(ctx, s._read_func.st, s)
+        if L['destination'] is not None:
+            L['destination'].written = s._read_func.st.w.fresh_win(ctx, 'hv_written')
+
+    reg.loops[(SR + '.pipe', 'while#0')] = LoopSpec(inv=linv, havoc=havoc)
+
+
+PIPE_INLINE = [SR + '.read', SR + '._normalize_size']
+
+
+def _w_pipe(v):
+    st = mkw(v)
+    has_dest = v.choose(2, 'destination?')
+    dest = WSink() if has_dest and not v.concrete else (_RealSink() if has_dest else None)
+    via_exhaust = v.hdef.target.endswith('.exhaust')
+    out = v.call(st.s) if via_exhaust else (v.call(st.s, dest) if has_dest else v.call(st.s))
+    if not _ret_ok(v, out):
+        return
+    wcheck_inv(v, st.s)
+    v.check('leaves-the-view-empty', wcoupled(v, st, st.nV))
+    if has_dest and not via_exhaust:
+        v.check('destination-received-exactly-the-view-in-order', is_window(st.w, dest.written, st.a0, st.nV))
+    v.cover('returns')
+
+
+class _RealSink:
+    def __init__(self):
+        self.written = b''
+
+    def write(self, data):
+        self.written += data
+        return len(data)
+
+
+harness(PROP, SR + '.pipe', name='w_pipe', setup=_pipe_loop, inline=PIPE_INLINE)(_w_pipe)
+harness(PROP, SR + '.exhaust', name='w_exhaust', setup=_pipe_loop, inline=PIPE_INLINE + [SR + '.pipe'], fix={'destination?': 0})(_w_pipe)
+
+
+# --- read_until (public): normalisation + _read_until; sizes beyond the join limit go through pipe_until ----------------------------
+
+
+def c_pipe_until(I, self, delimiter, destination=None, consume_delimiter=False, _size=None):
+    """BufferedReader.pipe_until (harness w_pipe_until)."""
+    st = self._fields['_read_func'].st
+    w = st.w
+    ctx = I.ctx
+    if not (delimiter is w.delim):
+        raise Unreached('pipe_until with a delimiter other than the one of this harness')
+    ctx.check(SR + '.pipe_until#pre:delimiter-length-within-1..chunk_size', And(w.dl >= 1, w.dl <= self._fields['_chunk_size']))
+    c = offset(st, obj_fields(self))
+    x = st.a0 + c
+    found, j, tgt = until_spec(st, x, _norm(self, _size))
+    if destination is not None:
+        I.call(I.getattr(destination, 'write'), [w.win(x, x + tgt)], {})
+    if consume_delimiter:
+        if ctx.branch(_b(delim_at(st, x + tgt)), label='delimiter-follows'):
+            move_to(ctx, st, self, c + tgt + w.dl)
+        else:
+            move_to(ctx, st, self, c + tgt)
+            ctx.raise_py(I.load_name('DelimiterError', _frame_of(SM)), 'expected delimiter missing')
+    else:
+        move_to(ctx, st, self, c + tgt)
+    return None
+
+
+def _read_until_setup(reg, ex):
+    _w2(reg, ex)
+    reg.stubs[SR + '._read_until'] = c__read_until
+    reg.stubs[SR + '.pipe_until'] = c_pipe_until
+
+
+@harness(PROP, SR + '.read_until', name='w_read_until', setup=_read_until_setup, inline=[SR + '._normalize_size'])
+def w_read_until(v):
+    st = mkw(v, delim='any')
+    v.assume(And(st.w.dl >= 1, st.w.dl <= st.cs))  # (the ValueError for other lengths is _read_until's, proved there)
+    size, kind = size_arg(v, allow_none=False)
+    consume = bool(v.choose(2, 'consume_delimiter'))
+    shape = v.choose(3, 'call-shape') if kind == 0 else 2
+    if shape == 0:
+        if consume:
+            v.cut()
+        out = v.call(st.s, st.delim)
+    elif shape == 1:
+        out = v.call(st.s, st.delim, consume_delimiter=consume)
+    else:
+        out = v.call(st.s, st.delim, size, consume)
+    k = wnorm_size(size, st)
+    n = wpost_until(v, st, out, k, consume)
+    if n is not None:
+        if kind == 1:
+            v.check('sized-read-until-bounded', n <= size)
+        # what makes read_until usable as the source callable of a delimited sub-reader (delimit):
+        v.check('empty-result-only-at-the-delimiter-or-at-the-end-of-the-view', Implies(And(n == 0, k > 0), Or(delim_at(st, st.a0), st.nV == 0)))
+        if k > st.cs * v.real(SM + ':_MAX_JOIN_CHUNKS'):
+            v.cover('beyond-the-join-limit')
+
+
+# --- pipe_until ----------------------------------------------------------------------------------------------------------------------
+
+
+def stopped(st, c):
+    """Nothing more can be taken before the delimiter: the cursor stands at a delimiter occurrence or at the end of the view."""
+    return Or(delim_at(st, st.a0 + c), c == st.nV)
+
+
+def _pipe_until_loop(reg, ex):
+    _w2(reg, ex)
+    reg.stubs[SR + '._read_until'] = c__read_until
+    reg.stubs[SR + '.peek'] = c_peek
+
+    def linv(L):
+        s = L['self']
+        rf = s._read_func
+        st = rf.st
+        fs = obj_fields(s)
+        c = offset(st, fs)
+        d = L['destination']
+        asked = st.R0 - L['remaining']  # a whole number of chunks
+        return And(
+            wcoupled_term(st, *fs, c), c <= st.nV,
+            True if d is None else is_window(st.w, d.written, st.a0, c),
+            none_before(st, c),  # no delimiter occurrence (lying wholly inside the view) starts in what was piped
+            asked >= 0, c <= Min(asked, st.R0), Or(c == Min(asked, st.R0), stopped(st, c)),
+        )
+
+    def havoc(ctx, L):
+        s = L['self']
+        havoc_state(ctx, s._read_func.st, s)
+        if L['destination'] is not None:
+            L['destination'].written = s._read_func.st.w.fresh_win(ctx, 'hv_written')
+
+    reg.loops[(SR + '.pipe_until', 'while#0')] = LoopSpec(inv=linv, havoc=havoc)
+
+
+def w_pipe_until(v):
+    st = mkw(v, delim='any')
+    v.assume(And(st.w.dl >= 1, st.w.dl <= st.cs))
+    has_dest = v.choose(2, 'destination?')
+    dest = (WSink() if not v.concrete else _RealSink()) if has_dest else None
+    consume = bool(v.choose(2, 'consume_delimiter'))
+    capped = v.choose(2, '_size-given?')  # the private cap used by read_until beyond the join limit
+    size = v.int('_size', 0) if capped else None
+    st.R0 = wnorm_size(size, st)
+    st.j0 = st.w.first(st.a0) if not v.concrete else None
+    out = v.call(st.s, st.delim, dest, consume, size) if capped else v.call(st.s, st.delim, dest, consume)
+    DelimiterError = v.real('falcon.errors:DelimiterError')
+    found, j, tgt = until_spec(st, st.a0, st.R0)
+    if out.exc is not None:
+        v.check('only-delimiter-error-escapes', And(out.exc.isa(DelimiterError), consume))
+        wcheck_inv(v, st.s)
+        v.check('delimiter-error-only-if-the-bytes-after-the-piped-ones-are-not-the-delimiter', Not(delim_at(st, st.a0 + tgt)))
+        if has_dest:
+            v.check('destination-received-the-view-up-to-the-first-delimiter', is_window(st.w, dest.written, st.a0, tgt))
+        v.cover('delimiter-error')
+        return
+    c = st.w.dl if consume else 0
+    wcheck_inv(v, st.s)
+    if has_dest:
+        v.check('destination-received-the-view-up-to-the-first-delimiter', is_window(st.w, dest.written, st.a0, tgt))
+    if consume:
+        v.check('consumed-bytes-are-the-delimiter', delim_at(st, st.a0 + tgt))
+    v.check('view-advances-by-the-piped-bytes-plus-the-consumed-delimiter', wcoupled(v, st, tgt + c))
+    if not capped:
+        v.check('uncapped-pipe-stops-exactly-at-the-first-delimiter-or-the-end', tgt == Ite(found, j - st.a0, st.nV))
+    v.cover('returns')
+
+
+for _c in (0, 1):
+    harness(PROP, SR + '.pipe_until', name='w_pipe_until[consume=%d]' % _c, setup=_pipe_until_loop, inline=[SR + '._normalize_size'],
+            fix={'consume_delimiter': _c})(w_pipe_until)
+
+
+# --- readline / readlines ---------------------------------------------------------------------------------------------------------------
+
+
+def line_spec(st, x, size):
+    """Flat cursor at T-index x: a line ends behind the first b'\\n', at `size`, or at the end."""
+    w = st.w
+    j = w.first(x)
+    found = And(j != -1, j + 1 <= st.end)
+    return Ite(found, Min(size, j + 1 - x), Min(size, st.end - x))
+
+
+def _readline_setup(reg, ex):
+    _w2(reg, ex)
+    reg.stubs[SR + '.read_until'] = c_read_until
+    reg.stubs[SR + '.read'] = c_read
+
+
+@harness(PROP, SR + '.readline', name='w_readline', setup=_readline_setup, inline=[SR + '._normalize_size'])
+def w_readline(v):
+    st = mkw(v, delim=b'\n')
+    size, kind = size_arg(v, allow_none=False)
+    omitted = kind == 0 and v.choose(2, 'size-omitted?')
+    out = v.call(st.s) if omitted else v.call(st.s, size)
+    if not _ret_ok(v, out):
+        return
+    n = line_spec(st, st.a0, wnorm_size(size, st))
+    wcheck_inv(v, st.s)
+    v.check('returns-the-next-line-including-its-newline-or-size-bytes-or-the-rest', is_window(st.w, out.value, st.a0, n))
+    v.check('view-advances-by-exactly-the-returned-bytes', wcoupled(v, st, n))
+    if kind == 1:
+        v.check('sized-readline-bounded', Len(out.value) <= size)
+    v.check('empty-line-only-at-the-end-of-the-view-or-for-size-zero', Implies(n == 0, Or(st.nV == 0, size == 0)))
+    v.cover('returns')
+
+
+def c_readline(I, self, size=-1):
+    """BufferedReader.readline (harness w_readline)."""
+    st = self._fields['_read_func'].st
+    c = offset(st, obj_fields(self))
+    n = line_spec(st, st.a0 + c, _norm(self, size))
+    move_to(I.ctx, st, self, c + n)
+    return st.w.win(st.a0 + c, st.a0 + c + n)
+
+
+def _readlines_loop(reg, ex):
+    _w2(reg, ex)
+    reg.stubs[SR + '.readline'] = c_readline
+
+    def linv(L):
+        s = L['self']
+        st = s._read_func.st
+        fs = obj_fields(s)
+        c = offset(st, fs)
+        lines = L['result']
+        hint = L['hint']
+        return And(wcoupled_term(st, *fs, c), c <= st.nV, is_window(st.w, WJoined(lines), st.a0, c),
+                   Implies(hint >= 0, And(L['read'] == c, Or(c < hint, Len(lines) == 0))), Implies(Len(lines) == 0, c == 0))
+
+    def havoc(ctx, L):
+        s = L['self']
+        havoc_state(ctx, s._read_func.st, s)
+
+    reg.loops[(SR + '.readlines', 'while#0')] = LoopSpec(inv=linv, havoc=havoc, lists={'result': WinList.of})
+
+
+@harness(PROP, SR + '.readlines', name='w_readlines', setup=_readlines_loop)
+def w_readlines(v):
+    st = mkw(v, delim=b'\n')
+    given = v.choose(2, 'hint-given?')
+    hint = v.int('hint') if given else -1
+    out = v.call(st.s, hint) if given else v.call(st.s)
+    if not _ret_ok(v, out):
+        return
+    lines = out.value
+    total = Len(WJoined(lines)) if not v.concrete else sum(len(x) for x in lines)
+    joined = WJoined(lines) if not v.concrete else b''.join(lines)
+    wcheck_inv(v, st.s)
+    v.check('lines-concatenate-to-the-next-bytes-of-the-view', is_window(st.w, joined, st.a0, total))
+    v.check('view-advances-by-exactly-the-returned-lines', wcoupled(v, st, total))
+    v.check('without-a-hint-everything-is-read', Implies(hint < 0, total == st.nV))
+    v.check('with-a-hint-reading-stops-once-it-is-reached-or-at-the-end', Implies(hint >= 0, Or(total >= hint, total == st.nV)))
+    v.cover('returns')
+
+
+# --- delimit -------------------------------------------------------------------------------------------------------------------------------
+
+
+@stubclass
+class Partial:
+    """functools.partial(func, *args)."""
+
+    def __init__(self, func, args, kwargs):
+        self.func, self.args, self.keywords = func, args, kwargs
+
+
+def _delimit_setup(reg, ex):
+    import functools
+
+    _w2(reg, ex)
+    reg.add_model(functools.partial, lambda I, f, *a, **k: Partial(f, a, k))
+
+
+@harness(PROP, SR + '.delimit', name='w_delimit', setup=_delimit_setup, inline=[SR + '._normalize_size', SR + '.__init__'])
+def w_delimit(v):
+    st = mkw(v, delim='any')
+    out = v.call(st.s, st.delim)
+    if not _ret_ok(v, out):
+        return
+    child = out.value
+    v.check('parent-untouched', And(wcoupled(v, st, 0), st.rf.pos == 0, st.rf.calls == 0))
+    if v.concrete:
+        src_ok = child._read_func.func == st.s.read_until and child._read_func.args == (st.delim,) and not child._read_func.keywords
+        is_reader = type(child) is type(st.s)
+    else:
+        rfc = v.get(child, '_read_func')
+        src_ok = isinstance(rfc, Partial) and rfc.func.func.qualname == 'BufferedReader.read_until' and rfc.func.self_obj is st.s \
+            and len(rfc.args) == 1 and rfc.args[0] is st.delim and not rfc.keywords
+        is_reader = child._cls is st.s._cls
+    v.check('sub-reader-is-a-buffered-reader-whose-source-is-read_until-of-the-parent-with-this-delimiter', is_reader and src_ok)
+    g = lambda n: v.get(child, n)
+    v.check('sub-reader-starts-empty-with-the-parent-chunk-size', And(Len(g('_buffer')) == 0, g('_buffer_len') == 0, g('_buffer_pos') == 0, g('_chunk_size') == st.cs))
+    v.check('sub-reader-budget-covers-the-whole-parent-view', And(g('_max_bytes_remaining') >= st.nV, g('_max_bytes_remaining') >= 0))
+
+
+# ===========================================================================
+# PART C -- the async reader (falcon/asgi/reader.py), window domain.
+#
+# T = initial buffer content ++ everything the (normalised) source `_source` will still deliver.
+# V(self) = _buffer[_buffer_pos:_buffer_len] ++ (undelivered rest of the source);  tell() = _consumed - buffered = bytes handed out.
+# Source contract (established by _iter_normalized, harness a_iter_normalized): non-empty chunks, every chunk but the last at
+# least chunk_size long; each delivered chunk adds its length to _consumed; _exhausted is set when the iterator finishes.
+
+
+@stubclass
+class ASource:
+    """self._source as its consumers see it: an async iterator that can be resumed across operations."""
+
+    def __init__(self, v, w, srclen, cs, n_left):
+        self.v, self.w, self.srclen, self.cs = v, w, srclen, cs
+        self.spos = 0
+        self.n_left = n_left
+        self.done = False
+        self.ended_now = False
+        self.reader = None
+        self.fetched = 0
+
+    def _item(self, i, n):
+        """The i-th of the n chunks that were still to come when the loop started."""
+        v = self.v
+        rest = self.srclen - self.spos
+        k = v.int('chunk_len', 1)
+        if v.concrete:
+            k = rest if i == n - 1 else max(self.cs, min(k, rest - 1))
+        v.assume(And(k <= rest, Implies(i < n - 1, And(k >= self.cs, k < rest)), Implies(i == n - 1, k == rest)))
+        base = self.w.base
+        r = self.w.win(base + self.spos, base + self.spos + k)
+        self.spos = self.spos + k
+        self.n_left = n - i - 1
+        self.fetched += 1
+        rd = self.reader
+        v.set(rd, '_consumed', v.get(rd, '_consumed') + k)
+        return r
+
+    def __pyvc_seq__(self):
+        from pyvc.core import FnSeq
+
+        n = self.n_left
+        self.n_at_loop = n  # (invariants speak about "the n chunks still to come when this loop started")
+        self.exh_at_loop = self.v.get(self.reader, '_exhausted')
+        g = lambda f: self.v.get(self.reader, f)
+        self.c_at_loop = self.w.base + self.spos - (g('_buffer_len') - g('_buffer_pos')) - self.st.a0  # cursor offset when the loop starts
+        return FnSeq(n, lambda i: self._item(i, n))
+
+    def __pyvc_for_end__(self):
+        self.n_left = 0
+        self.done = True
+        self.ended_now = True
+        self.v.set(self.reader, '_exhausted', True)
+
+    def __pyvc_iter__(self):
+        n = self.n_left
+        if not isinstance(n, int):
+            raise Unreached('iteration over the source without a loop invariant')
+        for i in range(n):
+            yield self._item(i, n)
+        self.__pyvc_for_end__()
+
+    async def agen(self):
+        """Concrete replay: the real async iterator."""
+        n = self.n_left
+        for i in range(n):
+            yield self._item(i, n)
+        self.__pyvc_for_end__()
+
+
+def mka(v, delim=None, tail=False):
+    """An async reader in an arbitrary state satisfying the representation invariant."""
+    st = St()
+    w = World(v)
+    st.w = w
+    st.bl0 = v.int('buf_len', 0)
+    st.bp = v.int('bp', 0)
+    v.assume(st.bp <= st.bl0)
+    st.cs = v.int('chunk_size', 1)
+    st.srclen = v.int('src_len', 0)
+    st.cons0 = v.int('consumed', 0)
+    st.exh0 = v.bool('exhausted')
+    n_left = v.choose(2, 'chunks-left') if tail else v.int('chunks_left', 0)
+    v.assume(Iff(n_left == 0, st.srclen == 0))
+    v.assume(Implies(st.exh0, n_left == 0))
+    v.assume(st.cons0 >= st.bl0 - st.bp)  # tell() >= 0
+    w.base = st.bl0
+    w.lenT = st.bl0 + st.srclen
+    st.a0 = st.bp
+    st.nB = st.bl0 - st.bp
+    st.nV = st.nB + st.srclen
+    st.end = st.a0 + st.nV
+    st.tell0 = st.cons0 - st.nB
+    w.delim_bytes = None
+    if delim is not None:
+        w.dl = v.int('delim_len', 0)
+        j0 = v.int('first_occurrence', -1)
+        if v.concrete:
+            d = bytes([255] + [254] * (w.dl - 1))[: max(w.dl, 0)]
+            w.delim = w.delim_bytes = d
+            w.T = _pattern(w.lenT, d, j0)
+        else:
+            w.delim = Delim(w)
+            v.assume(Implies(w.dl >= 1, j0 == w.first(st.a0)))
+            st.j0 = j0
+        st.delim = w.delim
+    elif v.concrete:
+        w.T = _pattern(w.lenT)
+    st.buf = w.win(0, st.bl0)
+    st.src = ASource(v, w, st.srclen, st.cs, n_left)
+    st.s = v.obj(AR, _buffer=st.buf, _buffer_len=st.bl0, _buffer_pos=st.bp, _chunk_size=st.cs, _consumed=st.cons0, _exhausted=st.exh0,
+                 _iteration_started=False, _max_join_size=st.cs * v.real(AM + ':_MAX_JOIN_CHUNKS'), _source=st.src if not v.concrete else None)
+    st.src.reader = st.s
+    st.src.st = st
+    if v.concrete:
+        v.set(st.s, '_source', st.src.agen())
+    return st
+
+
+def acoupled_term(st, buf, bl, bp, consumed, exhausted, c):
+    """The async reader is the flat cursor over V0 at offset c (c < 0: bytes were pushed back in front of V0)."""
+    w, src = st.w, st.src
+    nB = bl - bp
+    ints = And(0 <= bp, bp <= bl, w.base + src.spos == st.a0 + c + nB, 0 <= src.spos, src.spos <= st.srclen,
+               consumed == st.cons0 + src.spos, Implies(exhausted, src.spos == st.srclen))
+    if w.v.concrete:
+        return bool(ints) and bl == len(buf) and buf[bp:bl] == w.T[st.a0 + c : st.a0 + c + nB]
+    ba, bb = bounds(buf)
+    # (a fully consumed buffer may stay behind while chunks are passed through; it is trimmed before it is ever extended)
+    return And(ints, bl == bb - ba, Implies(nB > 0, ba + bp == st.a0 + c))
+
+
+def afields(v, s):
+    g = lambda n: v.get(s, n)
+    return g('_buffer'), g('_buffer_len'), g('_buffer_pos'), g('_consumed'), g('_exhausted')
+
+
+def acoupled(v, st, c):
+    return acoupled_term(st, *afields(v, st.s), c)
+
+
+def aobj_fields(o):
+    f = o._fields
+    return f['_buffer'], f['_buffer_len'], f['_buffer_pos'], f['_consumed'], f['_exhausted']
+
+
+def acheck_inv(v, s):
+    buf, bl, bp, consumed, exhausted = afields(v, s)
+    v.check('invariant-buffer-len-is-len-of-buffer', bl == Len(buf))
+    v.check('invariant-buffer-pos-within-buffer', And(0 <= bp, bp <= bl))
+
+
+def a_tell(v, st):
+    buf, bl, bp, consumed, exhausted = afields(v, st.s)
+    return consumed - (bl - bp)
+
+
+def acheck_cursor(v, st, c, clause='view-advances-by-exactly-the-returned-bytes'):
+    """Invariant, view, position and end-of-stream indicator agree with the flat cursor at offset c."""
+    acheck_inv(v, st.s)
+    v.check(clause, acoupled(v, st, c))
+    v.check('tell-matches-the-cursor', a_tell(v, st) == st.tell0 + c)
+    buf, bl, bp, consumed, exhausted = afields(v, st.s)
+    v.check('eof-only-at-the-end-of-the-view', Implies(And(exhausted, bl == bp), c == st.nV))
+
+
+def _aloop_havoc(ctx, L):
+    s = L['self']
+    s._consumed = ctx.fresh_int('hv_consumed')
+    s._source.spos = ctx.fresh_int('hv_spos')
+
+
+# --- the non-generator methods --------------------------------------------------------------------------------------------
+
+
+@harness(PROP, AR + '.__init__', name='a_init')
+def a_init(v):
+    @stubclass
+    class Gen:
+        pass
+
+    token = Gen()
+    kind = v.choose(3, 'chunk_size-kind')
+    cs = [None, 0, None][kind] if kind < 2 else v.int('chunk_size', 1)
+    s = v.obj(AR)
+    if v.concrete:
+        return
+    v.registry.stubs[AR + '._iter_normalized'] = lambda I, self, source: token
+    source = Gen()
+    out = v.call(s, source) if kind == 0 else v.call(s, source, cs)
+    if not _ret_ok(v, out):
+        return
+    g = lambda n: v.get(s, n)
+    default = v.real(AM + ':DEFAULT_CHUNK_SIZE')
+    v.check('starts-with-an-empty-buffer-at-position-zero', And(Len(g('_buffer')) == 0, g('_buffer_len') == 0, g('_buffer_pos') == 0, g('_consumed') == 0))
+    v.check('not-exhausted-not-iterating', And(Not(g('_exhausted')), Not(g('_iteration_started'))))
+    v.check('reads-from-the-normalised-source', g('_source') is token)
+    v.check('chunk-size-is-the-given-one-or-the-default', g('_chunk_size') == (cs if kind == 2 else default))
+    v.check('join-limit-is-a-whole-number-of-chunks', g('_max_join_size') == g('_chunk_size') * v.real(AM + ':_MAX_JOIN_CHUNKS'))
+
+
+@harness(PROP, AR + '._trim_buffer', name='a_trim_buffer')
+def a_trim_buffer(v):
+    st = mka(v)
+    out = v.call(st.s)
+    if not _ret_ok(v, out):
+        return
+    acheck_cursor(v, st, 0, 'view-unchanged')
+    v.check('buffer-starts-at-the-cursor', v.get(st.s, '_buffer_pos') == 0)
+
+
+@harness(PROP, AR + '._prepend_buffer', name='a_prepend_buffer')
+def a_prepend_buffer(v):
+    st = mka(v)
+    k = v.int('pushed_back', 0)
+    v.assume(k <= st.bp)
+    chunk = st.w.win(st.bp - k, st.bp)  # the k bytes handed out last (they lie right before the view)
+    out = v.call(st.s, chunk)
+    if not _ret_ok(v, out):
+        return
+    acheck_cursor(v, st, -k, 'pushed-back-bytes-are-in-front-of-the-view-again')
+    v.check('buffer-starts-at-the-cursor', v.get(st.s, '_buffer_pos') == 0)
+
+
+@harness(PROP, AR + '.tell', name='a_tell')
+def a_tell_h(v):
+    st = mka(v)
+    out = v.call(st.s)
+    v.check('tell-is-the-number-of-bytes-handed-out', And(out.exc is None, out.value == st.tell0))
+    v.check('state-untouched', acoupled(v, st, 0))
+
+
+@harness(PROP, AR + '.eof', name='a_eof')
+def a_eof(v):
+    st = mka(v)
+    out = v.call(st.s)
+    if not _ret_ok(v, out):
+        return
+    v.check('eof-iff-source-finished-and-nothing-buffered', Iff(out.value, And(st.exh0, st.nB == 0)))
+    v.check('eof-implies-the-view-is-empty', Implies(out.value, st.nV == 0))
+    v.check('state-untouched', acoupled(v, st, 0))
+
+
+def _peek_loop(reg, ex):
+    def linv(L):
+        s = L['self']
+        st = s._source.st
+        i = L['_i_for0']
+        src = s._source
+        return And(acoupled_term(st, *aobj_fields(s), src.c_at_loop), s._buffer_pos == 0, Iff(i == src.n_at_loop, src.spos == st.srclen),
+                   s._exhausted == src.exh_at_loop, s._buffer_len < L['size'])
+
+    reg.loops[(AR + '.peek', 'for#0')] = LoopSpec(inv=linv, havoc=_aloop_havoc)
+
+
+@harness(PROP, AR + '.peek', name='a_peek', setup=_peek_loop, inline=[AR + '._trim_buffer'])
+def a_peek(v):
+    st = mka(v)
+    st.n0 = st.src.n_left
+    given = v.choose(2, 'size-given?')
+    size = v.int('size') if given else -1
+    out = v.call(st.s, size) if given else v.call(st.s)
+    if not _ret_ok(v, out):
+        return
+    n = peek_size(size, st.cs)
+    v.check('returns-the-next-bytes-of-the-view-up-to-the-clamped-size', is_window(st.w, out.value, st.a0, Min(n, st.nV)))
+    acheck_cursor(v, st, 0, 'view-unchanged')
+    v.check('returned-bytes-are-buffered', v.get(st.s, '_buffer_len') - v.get(st.s, '_buffer_pos') >= Len(out.value))
+    v.cover('returns')
+    if st.src.fetched:
+        v.cover('pulls-from-the-source')
+
+
+@harness(PROP, AR + '._consume_delimiter', name='a_consume_delimiter', setup=_peek_loop, inline=[AR + '._trim_buffer', AR + '.peek'])
+def a_consume_delimiter(v):
+    st = mka(v, delim='any')
+    st.n0 = st.src.n_left
+    v.assume(And(st.w.dl >= 1, st.w.dl <= st.cs))  # checked by _iter_delimited before any delimiter is consumed
+    out = v.call(st.s, st.delim)
+    DelimiterError = v.real('falcon.errors:DelimiterError')
+    v.check('delimiter-error-iff-the-view-does-not-continue-with-the-delimiter', Iff(out.exc is not None, Not(delim_at(st, st.a0))))
+    if out.exc is not None:
+        v.check('only-delimiter-error-escapes', out.exc.isa(DelimiterError))
+        acheck_cursor(v, st, 0, 'a-missing-delimiter-consumes-nothing')
+        v.cover('delimiter-error')
+        return
+    acheck_cursor(v, st, st.w.dl, 'view-advances-by-exactly-the-delimiter')
+    v.cover('returns')
+
+
+# --- the generator methods (run eagerly; the clause at every `yield` is what makes the suspended composition sound) ------------
+
+
+def _yield_hook(interp, frame, item):
+    key = frame.closure.key if frame.closure is not None else ''
+    if not key.startswith(AR + '._iter_'):
+        return
+    w = _CURW[0]
+    v = w.v
+    s = frame.locals['self']
+    name = key.split('.')[-1]
+    if name == '_iter_normalized':
+        st = w.st
+        ys = frame.locals['$yields']
+        Y = WJoined(ys)
+        nonlast = Not(st.raw.ended_now)
+        v.ctx.check(key + '#every-chunk-is-non-empty-and-all-but-the-last-are-at-least-chunk_size-long',
+                    And(Len(item) >= 1, Implies(nonlast, Len(item) >= st.cs)))
+        v.ctx.check(key + '#chunks-concatenate-to-the-items-received-so-far-minus-the-one-held-back',
+                    is_window(w, Y, w.base, Len(Y)))
+        v.ctx.check(key + '#consumed-counts-exactly-the-yielded-bytes', s._consumed == st.cons0 + Len(Y))
+        v.ctx.check(key + '#not-exhausted-while-yielding', Not(s._exhausted))
+        return
+    st = s._source.st
+    Y = WJoined(frame.locals['$yields'])
+    cond = And(is_window(w, Y, st.a0, Len(Y)), acoupled_term(st, *aobj_fields(s), Len(Y)))
+    if name == '_iter_delimited' and st.src.ended_now:
+        v.ctx.check(key + '#yielded-bytes-are-consumed', cond)
+    else:
+        v.ctx.check(key + '#at-every-yield-the-yielded-bytes-are-removed-from-the-view', cond)
+    if name == '_iter_delimited':
+        v.ctx.check(key + '#never-yields-past-the-first-delimiter', none_before_a(st, Len(Y)))
+
+
+def none_before_a(st, c):
+    """No occurrence of the delimiter ENDS at or before offset c + (len-1), i.e. none starts before c ... (async: no budget cut)."""
+    return Or(st.j0 == -1, st.j0 >= st.a0 + c)
+
+
+def _iwb_loop(reg, ex):
+    reg.yield_hook = _yield_hook
+
+    def linv(L):
+        s = L['self']
+        st = s._source.st
+        Y = WJoined(L['$yields'])
+        return And(is_window(st.w, Y, st.a0, Len(Y)), acoupled_term(st, *aobj_fields(s), Len(Y)), s._buffer_pos == s._buffer_len,
+                   Iff(L['_i_for0'] == s._source.n_at_loop, s._source.spos == st.srclen), s._exhausted == s._source.exh_at_loop)
+
+    reg.loops[(AR + '._iter_with_buffer', 'for#0')] = LoopSpec(inv=linv, havoc=_aloop_havoc, lists={'$yields': WinList.of})
+
+
+@harness(PROP, AR + '._iter_with_buffer', name='a_iter_with_buffer', setup=_iwb_loop)
+def a_iter_with_buffer(v):
+    st = mka(v)
+    st.n0 = st.src.n_left
+    hint_given = v.choose(2, 'size_hint-given?')
+    hint = v.int('size_hint') if hint_given else 0
+    out = v.call(st.s, hint) if hint_given else v.call(st.s)
+    if not _ret_ok(v, out):
+        return
+    items = out.value.items
+    Y = WJoined(items) if not v.concrete else b''.join(items)
+    v.check('chunks-concatenate-to-the-whole-view', is_window(st.w, Y, st.a0, st.nV))
+    acheck_cursor(v, st, st.nV, 'iteration-leaves-the-view-empty')
+    v.check('source-finished', v.get(st.s, '_exhausted'))
+    v.cover('returns')
+
+
+def _idl_loop(reg, ex):
+    reg.yield_hook = _yield_hook
+
+    def linv(L):
+        s = L['self']
+        st = s._source.st
+        w = st.w
+        Y = WJoined(L['$yields'])
+        c = Len(Y)
+        jc = w.first(st.a0 + c)
+        return And(is_window(w, Y, st.a0, c), acoupled_term(st, *aobj_fields(s), c), s._buffer_pos == 0,
+                   Iff(L['_i_for0'] == s._source.n_at_loop, s._source.spos == st.srclen), s._exhausted == s._source.exh_at_loop,
+                   none_before_a(st, c),                                  # nothing yielded reaches into a delimiter occurrence
+                   Or(jc == -1, jc + w.dl > st.a0 + c + s._buffer_len))   # and no occurrence lies wholly inside the buffer
+
+    reg.loops[(AR + '._iter_delimited', 'for#0')] = LoopSpec(inv=linv, havoc=_aloop_havoc, lists={'$yields': WinList.of})
+
+
+def _idl_tail(reg, ex):
+    reg.yield_hook = _yield_hook
+
+
+def a_iter_delimited(v, tail):
+    st = mka(v, delim='any', tail=tail)
+    st.n0 = st.src.n_left
+    hint_given = v.choose(2, 'size_hint-given?')
+    hint = v.int('size_hint') if hint_given else 0
+    out = v.call(st.s, st.delim, hint) if hint_given else v.call(st.s, st.delim)
+    dl = st.w.dl
+    bad = Or(dl < 1, dl > st.cs)
+    v.check('delimiter-length-outside-1..chunk_size-raises-valueerror', Iff(out.exc is not None, bad))
+    if out.exc is not None:
+        v.check('only-valueerror-escapes', out.exc.isa(ValueError))
+        v.check('valueerror-consumes-nothing', acoupled(v, st, 0))
+        return
+    items = out.value.items
+    Y = WJoined(items) if not v.concrete else b''.join(items)
+    j = st.w.first(st.a0)
+    stop = Ite(j != -1, j - st.a0, st.nV)
+    v.check('chunks-concatenate-to-the-view-up-to-the-first-delimiter-or-the-end', is_window(st.w, Y, st.a0, stop))
+    acheck_inv(v, st.s)
+    v.check('yielded-bytes-are-consumed', acoupled(v, st, Len(Y)))  # what was yielded is removed from the view: V' == V minus the yielded bytes
+    v.check('tell-matches-the-cursor', a_tell(v, st) == st.tell0 + Len(Y))
+    v.cover('returns')
+    if j != -1:
+        v.cover('stops-at-delimiter')
+
+
+# first with the source at most one chunk from its end: no loop cut, so counter-models are replayable on the real code
+harness(PROP, AR + '._iter_delimited', name='a_iter_delimited[at-most-one-more-chunk]', setup=_idl_tail, inline=[AR + '._trim_buffer'])(lambda v: a_iter_delimited(v, True))
+# then for any number of chunks still to come (loop invariant)
+harness(PROP, AR + '._iter_delimited', name='a_iter_delimited', setup=_idl_loop, inline=[AR + '._trim_buffer'])(lambda v: a_iter_delimited(v, False))
+
+
+# --- _iter_normalized: what the reader's own source wrapper guarantees to the consumers above -------------------------------------------
+
+
+@stubclass
+class RawSource:
+    """The user's source: an async iterable of arbitrary bytes items (empty ones included)."""
+
+    def __init__(self, v, w, total):
+        self.v, self.w, self.total = v, w, total
+        self.spos = 0
+        self.n = v.int('items', 0)
+        v.assume(Implies(self.n == 0, total == 0))
+        self.ended_now = False
+
+    def _item(self, i, n):
+        v = self.v
+        rest = self.total - self.spos
+        k = v.int('item_len', 0)
+        if v.concrete:
+            k = rest if i == n - 1 else min(k, rest)
+        v.assume(And(k <= rest, Implies(i == n - 1, k == rest)))
+        r = self.w.win(self.spos, self.spos + k)
+        self.spos = self.spos + k
+        return r
+
+    def __pyvc_seq__(self):
+        from pyvc.core import FnSeq
+
+        n = self.n
+        return FnSeq(n, lambda i: self._item(i, n))
+
+    def __pyvc_for_end__(self):
+        self.ended_now = True
+
+    async def agen(self):
+        for i in range(self.n):
+            yield self._item(i, self.n)
+        self.ended_now = True
+
+
+def _inorm_loop(reg, ex):
+    reg.yield_hook = _yield_hook
+
+    def linv(L):
+        s = L['self']
+        st = _CURW[0].st
+        w = st.w
+        Y = WJoined(L['$yields'])
+        chunk = L['chunk']
+        return And(is_window(w, Y, 0, Len(Y)), is_window(w, chunk, Len(Y), Len(chunk)), Len(Y) + Len(chunk) == st.raw.spos,
+                   s._consumed == st.cons0 + Len(Y), Not(s._exhausted), L['chunk_size'] == st.cs,
+                   Implies(L['_i_for0'] == st.raw.n, st.raw.spos == st.total))
+
+    def havoc(ctx, L):
+        _CURW[0].st.raw.spos = ctx.fresh_int('hv_rawpos')
+        L['chunk'] = _CURW[0].fresh_win(ctx, 'hv_chunk')
+
+    reg.loops[(AR + '._iter_normalized', 'for#0')] = LoopSpec(inv=linv, havoc=havoc, no_auto=('chunk',), lists={'$yields': WinList.of})
+
+
+@harness(PROP, AR + '._iter_normalized', name='a_iter_normalized', setup=_inorm_loop)
+def a_iter_normalized(v):
+    st = St()
+    w = World(v)
+    w.st = st
+    st.w = w
+    st.cs = v.int('chunk_size', 1)
+    st.total = v.int('total_len', 0)
+    st.cons0 = v.int('consumed', 0)
+    w.base = 0
+    w.lenT = st.total
+    if v.concrete:
+        w.T = _pattern(st.total)
+    st.raw = RawSource(v, w, st.total)
+    st.s = v.obj(AR, _chunk_size=st.cs, _consumed=st.cons0, _exhausted=False)
+    out = v.call(st.s, st.raw if not v.concrete else st.raw.agen())
+    if not _ret_ok(v, out):
+        return
+    items = out.value.items
+    Y = WJoined(items) if not v.concrete else b''.join(items)
+    v.check('chunks-concatenate-to-exactly-the-items-of-the-source', is_window(w, Y, 0, st.total))
+    v.check('consumed-counts-exactly-the-delivered-bytes', v.get(st.s, '_consumed') == st.cons0 + st.total)
+    v.check('exhausted-once-the-source-is-finished', v.get(st.s, '_exhausted'))
+    if v.concrete:
+        v.check('every-chunk-is-non-empty-and-all-but-the-last-are-at-least-chunk_size-long',
+                all(len(x) >= 1 for x in items) and all(len(x) >= st.cs for x in items[:-1]))
+    v.cover('returns')
+
+
+# --- _read_from against ANY generator that keeps the per-yield contract proved above ------------------------------------------------------------
+
+
+def a_havoc_state(ctx, st, o):
+    buf = st.w.fresh_win(ctx, 'st_buffer')
+    f = o._fields
+    f['_buffer'] = buf
+    f['_buffer_len'] = buf.b - buf.a
+    f['_buffer_pos'] = ctx.fresh_int('st_buffer_pos')
+    f['_consumed'] = ctx.fresh_int('st_consumed')
+    f['_exhausted'] = ctx.fresh_bool('st_exhausted')
+    st.src.spos = ctx.fresh_int('st_spos')
+    n = ctx.fresh_int('st_chunks_left')
+    st.src.n_left = n
+    ctx.assume(And(n >= 0, Iff(n == 0, st.src.spos == st.srclen), Implies(f['_exhausted'], n == 0)))
+
+
+def a_move_to(ctx, st, o, c):
+    a_havoc_state(ctx, st, o)
+    ctx.assume(acoupled_term(st, *aobj_fields(o), c))
+
+
+@stubclass
+class ViewGen:
+    """A suspended generator over the reader (contract of _iter_with_buffer / _iter_delimited, harnesses a_iter_with_buffer and
+    a_iter_delimited): it will deliver V[:G] in consecutive chunks; whenever it is suspended at a yield, exactly the bytes
+    yielded so far are removed from the reader's view; it touches the reader only while it runs."""
+
+    def __init__(self, v, st, G, finishes_source=False):
+        self.v, self.st, self.G = v, st, G
+        self.o = 0
+        self.n = v.int('gen_chunks', 0)
+        v.assume(Implies(self.n == 0, G == 0))
+        self.finishes_source = finishes_source
+        self.fetched = 0
+
+    def _item(self, i, n):
+        v, st = self.v, self.st
+        k = v.int('gen_chunk_len', 0)
+        v.assume(And(self.o + k <= self.G, Implies(i == n - 1, self.o + k == self.G)))
+        r = st.w.win(st.a0 + self.o, st.a0 + self.o + k)
+        self.o = self.o + k
+        a_move_to(v.ctx, st, st.s, self.o)
+        self.fetched += 1
+        return r
+
+    def __pyvc_seq__(self):
+        from pyvc.core import FnSeq
+
+        n = self.n
+        return FnSeq(n, lambda i: self._item(i, n))
+
+    def __pyvc_for_end__(self):
+        st = self.st
+        self.o = self.G
+        a_move_to(self.v.ctx, st, st.s, self.G)
+        if self.finishes_source:
+            self.v.ctx.assume(st.s._fields['_exhausted'])
+
+
+def _gen_havoc(ctx, L):
+    g = L['source'] if 'source' in L else None
+    s = L['self']
+    st = _CURW[0].st
+    st.gen.o = ctx.fresh_int('hv_gen_o')
+    a_havoc_state(ctx, st, s)
+
+
+def _read_from_loops(reg, ex):
+    _wbytesio(reg)
+
+    def common(L, idx='_i_for0'):
+        s = L['self']
+        st = _CURW[0].st
+        g = st.gen
+        return st, g, And(acoupled_term(st, *aobj_fields(s), g.o), 0 <= g.o, g.o <= g.G, Implies(L[idx] == g.n, g.o == g.G))
+
+    def inv0(L):  # size is None / -1: everything into a BytesIO
+        st, g, c = common(L)
+        return And(c, is_window(st.w, L['result_bytes'].value, st.a0, g.o))
+
+    def inv1(L):  # size <= join limit: list of chunks
+        st, g, c = common(L, '_i_for1')
+        return And(c, is_window(st.w, WJoined(L['result']), st.a0, g.o), L['remaining'] == L['size'] - g.o, L['remaining'] > 0,
+                   Implies(Len(L['result']) == 0, g.o == 0))
+
+    def inv2(L):  # size > join limit: BytesIO
+        st, g, c = common(L, '_i_for2')
+        return And(c, is_window(st.w, L['result_bytes'].value, st.a0, g.o), L['remaining'] == L['size'] - g.o, L['remaining'] > 0)
+
+    def havoc_io(ctx, L):
+        _gen_havoc(ctx, L)
+        L['result_bytes'].value = _CURW[0].fresh_win(ctx, 'hv_acc')
+
+    reg.loops[(AR + '._read_from', 'for#0')] = LoopSpec(inv=inv0, havoc=havoc_io)
+    reg.loops[(AR + '._read_from', 'for#1')] = LoopSpec(inv=inv1, havoc=_gen_havoc, lists={'result': WinList.of})
+    reg.loops[(AR + '._read_from', 'for#2')] = LoopSpec(inv=inv2, havoc=havoc_io)
+
+
+def asize_arg(v):
+    kind = v.choose(4, 'size-kind')
+    if kind == 0:
+        return -1, kind
+    if kind == 1:
+        return None, kind
+    if kind == 2:
+        return v.int('size', 1), kind
+    s = v.int('size')
+    v.assume(And(s <= 0, s != -1))
+    return s, kind
+
+
+def post_async_read(v, st, out, size, kind, G):
+    """Flat cursor over V[:G] (G = all of V, or V up to the first delimiter)."""
+    if not _ret_ok(v, out):
+        return None
+    n = G if kind in (0, 1) else (Min(size, G) if kind == 2 else 0)
+    v.check('returns-the-next-bytes-of-the-view', is_window(st.w, out.value, st.a0, n))
+    acheck_cursor(v, st, n)
+    if kind == 2:
+        v.check('sized-read-bounded', Len(out.value) <= size)
+    v.cover('returns')
+    return n
+
+
+def a_read_from(v):
+    st = mka(v)
+    _CURW[0].st = st
+    G = v.int('gen_total', 0)
+    v.assume(G <= st.nV)
+    st.gen = ViewGen(v, st, G)
+    size, kind = asize_arg(v)
+    if v.concrete:
+        return  # the generator is a contract stub here; replay is meaningful for the generator harnesses, not for this one
+    out = v.call(st.s, st.gen, size)
+    post_async_read(v, st, out, size, kind, G)
+    if kind == 2 and st.gen.fetched:
+        v.cover('pulls-chunks')
+
+
+for _k, _n in enumerate(['minus-one', 'None', 'positive', 'nonpositive']):
+    harness(PROP, AR + '._read_from', name='a_read_from[size=%s]' % _n, setup=_read_from_loops, inline=[AR + '._prepend_buffer'],
+            fix={'size-kind': _k})(a_read_from)
+
+
+# --- the public operations: generator contract + _read_from (inlined) / plain loops ----------------------------------------------------------
+
+
+def _public_setup(reg, ex):
+    _read_from_loops(reg, ex)
+    _peek_loop(reg, ex)
+
+    def iwb(I, self, size_hint=0):
+        st = _CURW[0].st
+        st.gen = ViewGen(st.w.v, st, st.nV, finishes_source=True)
+        return st.gen
+
+    def idl(I, self, delimiter, size_hint=0):
+        st = _CURW[0].st
+        w = st.w
+        if delimiter is not w.delim:
+            raise Unreached('_iter_delimited with a delimiter other than the one of this harness')
+        I.ctx.check(AR + '._iter_delimited#pre:delimiter-length-within-1..chunk_size', And(w.dl >= 1, w.dl <= st.cs))
+        j = w.first(st.a0)
+        st.gen = ViewGen(w.v, st, Ite(j != -1, j - st.a0, st.nV))
+        return st.gen
+
+    reg.stubs[AR + '._iter_with_buffer'] = iwb
+    reg.stubs[AR + '._iter_delimited'] = idl
+
+    def pipe_inv(L):
+        s = L['self']
+        st = _CURW[0].st
+        g = st.gen
+        d = L['destination']
+        return And(acoupled_term(st, *aobj_fields(s), g.o), 0 <= g.o, g.o <= g.G, Implies(L['_i_for0'] == g.n, g.o == g.G),
+                   True if d is None else is_window(st.w, d.written, st.a0, g.o))
+
+    def pipe_havoc(ctx, L):
+        _gen_havoc(ctx, L)
+        if L['destination'] is not None:
+            L['destination'].written = _CURW[0].fresh_win(ctx, 'hv_written')
+
+    reg.loops[(AR + '.pipe', 'for#0')] = LoopSpec(inv=pipe_inv, havoc=pipe_havoc)
+    reg.loops[(AR + '.pipe_until', 'for#0')] = LoopSpec(inv=pipe_inv, havoc=pipe_havoc)
+
+
+PUBLIC_INLINE = [AR + '._read_from', AR + '._prepend_buffer', AR + '._consume_delimiter', AR + '.peek', AR + '._trim_buffer', AR + '.pipe']
+
+
+def _mkpub(v, delim=None):
+    st = mka(v, delim=delim)
+    _CURW[0].st = st
+    if delim is not None:
+        v.assume(And(st.w.dl >= 1, st.w.dl <= st.cs))
+    return st
+
+
+@harness(PROP, AR + '.read', name='a_read', setup=_public_setup, inline=PUBLIC_INLINE)
+def a_read(v):
+    st = _mkpub(v)
+    size, kind = asize_arg(v)
+    omitted = kind == 0 and v.choose(2, 'size-omitted?')
+    if v.concrete:
+        return
+    out = v.call(st.s) if omitted else v.call(st.s, size)
+    post_async_read(v, st, out, size, kind, st.nV)
+    if out.exc is None and kind in (0, 1):
+        v.check('unsized-read-reaches-end-of-stream', And(v.get(st.s, '_exhausted'), v.get(st.s, '_buffer_len') == v.get(st.s, '_buffer_pos')))
+
+
+@harness(PROP, AR + '.readall', name='a_readall', setup=_public_setup, inline=PUBLIC_INLINE)
+def a_readall(v):
+    st = _mkpub(v)
+    if v.concrete:
+        return
+    out = v.call(st.s)
+    post_async_read(v, st, out, None, 1, st.nV)
+    if out.exc is None:
+        v.check('readall-reaches-end-of-stream', And(v.get(st.s, '_exhausted'), v.get(st.s, '_buffer_len') == v.get(st.s, '_buffer_pos')))
+
+
+def a_read_until(v):
+    st = _mkpub(v, delim='any')
+    size, kind = asize_arg(v)
+    consume = bool(v.choose(2, 'consume_delimiter'))
+    if v.concrete:
+        return
+    shape = v.choose(2, 'call-shape') if kind == 0 else 1
+    out = (v.call(st.s, st.delim, consume_delimiter=consume) if shape == 0 else v.call(st.s, st.delim, size, consume))
+    j = st.w.first(st.a0)
+    stop = Ite(j != -1, j - st.a0, st.nV)
+    n = stop if kind in (0, 1) else (Min(size, stop) if kind == 2 else 0)
+    DelimiterError = v.real('falcon.errors:DelimiterError')
+    if consume:
+        v.check('delimiter-error-iff-the-bytes-after-the-result-are-not-the-delimiter', Iff(out.exc is not None, Not(delim_at(st, st.a0 + n))))
+    if out.exc is not None:
+        v.check('only-delimiter-error-escapes', And(out.exc.isa(DelimiterError), consume))
+        acheck_cursor(v, st, n, 'a-missing-delimiter-leaves-the-cursor-behind-the-result')
+        v.cover('delimiter-error')
+        return
+    c = st.w.dl if consume else 0
+    v.check('returns-the-view-up-to-the-first-delimiter-or-size-or-end', is_window(st.w, out.value, st.a0, n))
+    v.check('returned-bytes-contain-no-delimiter', Or(j == -1, j + st.w.dl > st.a0 + n))
+    acheck_cursor(v, st, n + c, 'view-advances-by-the-returned-bytes-plus-the-consumed-delimiter')
+    v.cover('returns')
+
+
+for _c in (0, 1):
+    harness(PROP, AR + '.read_until', name='a_read_until[consume=%d]' % _c, setup=_public_setup, inline=PUBLIC_INLINE, fix={'consume_delimiter': _c})(a_read_until)
+
+
+def a_pipe(v):
+    st = _mkpub(v)
+    has_dest = v.choose(2, 'destination?')
+    dest = WSink() if has_dest else None
+    if v.concrete:
+        return
+    via_exhaust = v.hdef.target.endswith('.exhaust')
+    out = v.call(st.s) if (via_exhaust or not has_dest) else v.call(st.s, dest)
+    if not _ret_ok(v, out):
+        return
+    acheck_cursor(v, st, st.nV, 'leaves-the-view-empty')
+    v.check('reaches-end-of-stream', And(v.get(st.s, '_exhausted'), v.get(st.s, '_buffer_len') == v.get(st.s, '_buffer_pos')))
+    if has_dest and not via_exhaust:
+        v.check('destination-received-exactly-the-view-in-order', is_window(st.w, dest.written, st.a0, st.nV))
+    v.cover('returns')
+
+
+harness(PROP, AR + '.pipe', name='a_pipe', setup=_public_setup, inline=PUBLIC_INLINE)(a_pipe)
+harness(PROP, AR + '.exhaust', name='a_exhaust', setup=_public_setup, inline=PUBLIC_INLINE, fix={'destination?': 0})(a_pipe)
+
+
+def a_pipe_until(v):
+    st = _mkpub(v, delim='any')
+    has_dest = v.choose(2, 'destination?')
+    dest = WSink() if has_dest else None
+    consume = bool(v.choose(2, 'consume_delimiter'))
+    if v.concrete:
+        return
+    out = v.call(st.s, st.delim, dest, consume)
+    j = st.w.first(st.a0)
+    stop = Ite(j != -1, j - st.a0, st.nV)
+    DelimiterError = v.real('falcon.errors:DelimiterError')
+    if consume:
+        v.check('delimiter-error-iff-the-bytes-after-the-piped-ones-are-not-the-delimiter', Iff(out.exc is not None, Not(delim_at(st, st.a0 + stop))))
+    if has_dest:
+        v.check('destination-received-the-view-up-to-the-first-delimiter', is_window(st.w, dest.written, st.a0, stop))
+    if out.exc is not None:
+        v.check('only-delimiter-error-escapes', And(out.exc.isa(DelimiterError), consume))
+        acheck_cursor(v, st, stop, 'a-missing-delimiter-leaves-the-cursor-behind-the-piped-bytes')
+        return
+    acheck_cursor(v, st, stop + (st.w.dl if consume else 0), 'view-advances-by-the-piped-bytes-plus-the-consumed-delimiter')
+    v.cover('returns')
+
+
+for _c in (0, 1):
+    harness(PROP, AR + '.pipe_until', name='a_pipe_until[consume=%d]' % _c, setup=_public_setup, inline=PUBLIC_INLINE, fix={'consume_delimiter': _c})(a_pipe_until)
+
+
+@harness(PROP, AR + '.__aiter__', name='a_aiter')
+def a_aiter(v):
+    st = mka(v)
+    started = v.bool('iteration_started')
+    v.set(st.s, '_iteration_started', started)
+    if v.concrete:
+        return
+
+    @stubclass
+    class Token:
+        pass
+
+    tok = Token()
+    v.registry.stubs[AR + '._iter_with_buffer'] = lambda I, self, size_hint=0: tok
+    out = v.call(st.s)
+    v.check('second-iteration-is-refused', Iff(out.exc is not None, started))
+    if out.exc is not None:
+        v.check('refusal-is-operation-not-allowed-and-touches-nothing', And(out.exc.isa(v.real('falcon.errors:OperationNotAllowed')), acoupled(v, st, 0)))
+        return
+    v.check('iteration-marked-started', v.get(st.s, '_iteration_started'))
+    v.check('buffered-bytes-come-first-then-the-source', (out.value is tok) if st.nB > 0 else (out.value is st.src))
+    v.check('state-untouched', acoupled(v, st, 0))
+
+
+@harness(PROP, AR + '.delimit', name='a_delimit', inline=[AR + '.__init__'])
+def a_delimit(v):
+    st = mka(v, delim='any')
+    if v.concrete:
+        return
+
+    @stubclass
+    class Token:
+        def __init__(self, *a):
+            self.a = a
+
+    v.registry.stubs[AR + '._iter_delimited'] = lambda I, self, delimiter, size_hint=0: Token('delimited', self, delimiter, size_hint)
+    v.registry.stubs[AR + '._iter_normalized'] = lambda I, self, source: Token('normalized', self, source)
+    out = v.call(st.s, st.delim)
+    if not _ret_ok(v, out):
+        return
+    child = out.value
+    v.check('parent-untouched', acoupled(v, st, 0))
+    src = v.get(child, '_source')
+    ok = child._cls is st.s._cls and isinstance(src, Token) and src.a[0] == 'normalized' and src.a[1] is child
+    inner = src.a[2] if ok else None
+    ok = ok and isinstance(inner, Token) and inner.a[0] == 'delimited' and inner.a[1] is st.s and inner.a[2] is st.delim
+    v.check('sub-reader-reads-the-normalised-delimited-iteration-of-the-parent', ok)
+    g = lambda n: v.get(child, n)
+    v.check('sub-reader-starts-empty-at-position-zero-with-the-parent-chunk-size',
+            And(Len(g('_buffer')) == 0, g('_buffer_len') == 0, g('_buffer_pos') == 0, g('_consumed') == 0, Not(g('_exhausted')), g('_chunk_size') == st.cs))
+
+
+
+# --- the known defect of _iter_delimited once more, through the public operations (read_until, then read) --------------------------------
+# Unbounded reads only (size == -1): the consumer _read_from then never touches the reader between two yields, so running the
+# generators eagerly is exactly what happens at run time.  Same clause name as at the root, so one finding covers both.
+
+
+def _seq_setup(reg, ex):
+    reg.yield_hook = None
+
+    def read_from_unbounded(I, self, source, size=-1):
+        # contract of _read_from for size == -1 (harness a_read_from[size=minus-one]): the concatenation of everything the generator yields
+        if not (isinstance(size, int) and size == -1):
+            raise Unreached('this harness only makes unbounded reads')
+        return WJoined(source.items)
+
+    reg.stubs[AR + '._read_from'] = read_from_unbounded
+
+
+@harness(PROP, AR + '._iter_delimited', name='a_read_until_then_read[at-most-one-more-chunk]', setup=_seq_setup,
+         inline=[AR + '.read_until', AR + '.read', AR + '._iter_delimited', AR + '._iter_with_buffer', AR + '._trim_buffer'])
+def a_read_until_then_read(v):
+    st = mka(v, delim='any', tail=True)
+    v.assume(And(st.w.dl >= 1, st.w.dl <= st.cs))
+    out1 = v.call(st.s, st.delim, target=AR + '.read_until')
+    if not _ret_ok(v, out1):
+        return
+    j = st.w.first(st.a0)
+    stop = Ite(j != -1, j - st.a0, st.nV)
+    v.check('read_until-returns-the-view-up-to-the-first-delimiter-or-the-end', is_window(st.w, out1.value, st.a0, stop))
+    out2 = v.call(st.s, target=AR + '.read')
+    if not _ret_ok(v, out2):
+        return
+    # a following read() delivers exactly the rest: nothing twice, nothing skipped
+    v.check('yielded-bytes-are-consumed', is_window(st.w, out2.value, st.a0 + stop, st.nV - stop))
+    v.cover('returns')
+
+
+# --- the defect of _read once more, through the public read(size): the source ends before the declared maximum length ---------------
+
+
+@harness(PROP, SR + '._read', name='w_read_public[representation-invariant]', setup=_w, inline=[SR + '.read', SR + '._normalize_size', SR + '._read'])
+def w_read_public(v):
+    st = mkw(v)
+    size, kind = size_arg(v)
+    out = v.call(st.s, size, target=SR + '.read')
+    if not _ret_ok(v, out):
+        return
+    wcheck_inv(v, st.s)  # same clause names as at the root (_read), so one finding covers both
+    v.cover('returns')
+
+
+def _public_witness_first():
+    """Report the known defect with the counter-model that replays through the public operations (first refuted obligation of a name is the one replayed)."""
+    from pyvc.harness import HARNESSES
+
+    mine = [h for h in HARNESSES if h.fn.__module__ == __name__]
+    for prefix, target in (('a_read_until_then_read', AR + '._iter_delimited'), ('w_read_public', SR + '._read')):
+        pub = [h for h in mine if h.name.startswith(prefix)]
+        for h in pub:
+            HARNESSES.remove(h)
+        at = min(i for i, h in enumerate(HARNESSES) if h.fn.__module__ == __name__ and h.target == target)
+        HARNESSES[at:at] = pub
+
+
+_public_witness_first()
+
+
+# ===========================================================================
+# BOUNDED STAND-IN -- labelled, never counted as proved.
+#
+# A differential test of BOTH real readers (pure-Python classes of the source-only overlay) against a trivially correct flat
+# cursor over the whole byte string, run in a subprocess with /venv/bin/python.  It exercises what the proof leaves to
+# inspection or to paper (see NOT_DECIDED): suspended generators composed with their consumers, nested delimit(), termination
+# (every operation under a watchdog), and it re-checks everything else end to end on concrete bytes.
+# The two defects found by proof surface here under the SAME obligation names as in the proof part; anything else gets a
+# `C14.bounded#...` name.
+
+
+def bounded(tier, seed, overlay_dir):
+    import json
+    import os
+    import subprocess
+    import tempfile
+
+    base = os.environ.get('TMPDIR') or '/var/tmp'
+    with tempfile.TemporaryDirectory(prefix='verif.c14b.', dir=base) as d:
+        path = os.path.join(d, 'c14_bounded_child.py')
+        with open(path, 'w', encoding='utf-8') as f:
+            f.write(_BOUNDED_CHILD)
+        env = {k: v for k, v in os.environ.items() if k not in ('PYTHONHOME', 'PYTHONSTARTUP', 'VIRTUAL_ENV')}
+        env.update(PYTHONPATH=overlay_dir, PYTHONDONTWRITEBYTECODE='1')
+        limit = 3600 if tier == 'thorough' else 600
+        try:
+            p = subprocess.run(['/venv/bin/python', '-B', path, 'thorough' if tier == 'thorough' else 'quick', str(int(seed or 0))],
+                               cwd=d, env=env, capture_output=True, text=True, timeout=limit)
+        except subprocess.TimeoutExpired:
+            return [{'name': 'C14.bounded', 'bound': '', 'cases': 0, 'failures': [], 'error': 'bounded stand-in timed out after %d s' % limit}]
+        try:
+            out = json.loads(p.stdout)
+            assert isinstance(out, list) and all(isinstance(r, dict) and 'failures' in r for r in out)
+        except Exception:
+            return [{'name': 'C14.bounded', 'bound': '', 'cases': 0, 'failures': [],
+                     'error': 'bounded stand-in did not produce its report (exit %s): %s' % (p.returncode, (p.stderr or p.stdout)[-2000:])}]
+        for r in out:
+            r['label'] = 'bounded -- not counted as proved'
+        return out
+
+
+_BOUNDED_CHILD = r'''#!/usr/bin/env python
+"""C14 bounded differential test: falcon's two buffered readers vs. a flat cursor.
+
+usage: PYTHONPATH=<source-only overlay> python child.py <quick|thorough> <seed>
+prints ONE JSON document (list of two dicts) on stdout.
+"""
+import json
+import multiprocessing as mp
+import random
+import signal
+import sys
+import warnings
+import zlib
+
+from falcon.asgi.reader import BufferedReader as AsyncReader
+from falcon.errors import DelimiterError
+from falcon.util.reader import BufferedReader as SyncReader
+
+NAME_SYNC = 'C14.bounded.sync-reader-vs-flat-cursor'
+NAME_ASYNC = 'C14.bounded.async-reader-vs-flat-cursor'
+
+OB_KNOWN_ASYNC = 'falcon.asgi.reader:BufferedReader._iter_delimited#yielded-bytes-are-consumed'
+OB_KNOWN_SYNC = 'falcon.util.reader:BufferedReader._read#invariant-buffer-pos-within-buffer'
+OB_SYNC_RET = 'C14.bounded#sync-op-returns-what-the-flat-cursor-returns'
+OB_ASYNC_RET = 'C14.bounded#async-op-returns-what-the-flat-cursor-returns'
+OB_SYNC_INV = 'C14.bounded#sync-representation-invariant'
+OB_ASYNC_INV = 'C14.bounded#async-representation-invariant'
+OB_TELL = 'C14.bounded#async-tell-matches-cursor'
+OB_EOF = 'C14.bounded#async-eof-matches-cursor'
+OB_SRC = 'C14.bounded#source-never-asked-beyond-declared-length'
+OB_TERM = 'C14.bounded#operation-terminates'
+
+WATCHDOG_S = 2.0
+WATCHDOG_CONFIRM_S = 4.0
+MAX_HANGS_PER_UNIT = 2
+KEEP_PER_OBLIGATION = 5
+ALPHABET = (b'\r', b'\n', b'x')
+# master delimiter list; a configuration with chunk size cs uses those of length <= cs
+DELIMS = (b'\n', b'\r\n', b'\n\n', b'\r\r\n', b'\r\n\r\n')
+MAX_CS = 4
+
+
+class Hang(BaseException):
+    pass
+
+
+class StopUnit(BaseException):
+    pass
+
+
+class RetryHistory(BaseException):
+    pass
+
+
+def _on_alarm(signum, frame):
+    raise Hang()
+
+
+# --------------------------------------------------------------------------
+# JSON helpers
+# --------------------------------------------------------------------------
+
+
+def jb(v):
+    if isinstance(v, (bytes, bytearray)):
+        return bytes(v).decode('latin-1')
+    if isinstance(v, (list, tuple)):
+        return [jb(x) for x in v]
+    if isinstance(v, dict):
+        return {str(k): jb(x) for k, x in v.items()}
+    return v
+
+
+def op_json(op):
+    k = op[0]
+    if k == 'read':
+        return {'op': 'read', 'size': op[1]}
+    if k == 'peek':
+        return {'op': 'peek', 'size': op[1]}
+    if k == 'ru':
+        return {'op': 'read_until', 'delimiter': jb(op[1]), 'size': op[2], 'consume_delimiter': op[3]}
+    if k == 'bad':
+        return {'op': 'read_until_bad_delim', 'delimiter': jb(op[1])}
+    if k == 'pipe':
+        return {'op': 'pipe', 'with_destination': op[1]}
+    if k == 'pu':
+        return {'op': 'pipe_until', 'delimiter': jb(op[1]), 'with_destination': op[2], 'consume_delimiter': op[3]}
+    if k == 'readline':
+        return {'op': 'readline', 'size': op[1]}
+    if k == 'readlines':
+        return {'op': 'readlines', 'hint': op[1]}
+    if k == 'delimit':
+        return {
+            'op': 'delimit',
+            'delimiter': jb(op[1]),
+            'child_history': [op_json(o) for o in op[2]],
+            'then_child': 'exhaust()' if op[3] == 'exhaust' else 'read() to the end',
+        }
+    return {'op': k}  # exhaust / readall / iterate
+
+
+# --------------------------------------------------------------------------
+# Reference model: flat cursor over D with position p
+# --------------------------------------------------------------------------
+
+
+class Cur:
+    __slots__ = ('D', 'p')
+
+    def __init__(self, D):
+        self.D = D
+        self.p = 0
+
+
+def ref_apply(cur, op, cs):
+    """Apply op to the flat cursor.
+
+    Returns (expected, eof_must, not_found) where expected is ('ret', value) or
+    ('exc', name); eof_must: the async reader must report eof afterwards;
+    not_found: op was a delimited op whose delimiter does not occur in rest.
+    """
+    D = cur.D
+    p = cur.p
+    rest = D[p:]
+    k = op[0]
+    if k == 'read':
+        n = op[1]
+        if n is None or n == -1:
+            cur.p = len(D)
+            return ('ret', rest), True, False
+        r = rest[:n]
+        cur.p = p + len(r)
+        return ('ret', r), len(r) < n, False
+    if k == 'peek':
+        n = op[1]
+        if not 0 <= n <= cs:
+            n = cs
+        return ('ret', rest[:n]), False, False
+    if k == 'ru' or k == 'pu':
+        d = op[1]
+        i = rest.find(d)
+        stop = i if i >= 0 else len(rest)
+        if k == 'ru':
+            size = op[2]
+            if size is not None and size >= 0 and size < stop:
+                stop = size
+            val = rest[:stop]
+        else:
+            val = rest[:stop] if op[2] else None
+        cur.p = p + stop
+        if op[3]:
+            if D[cur.p : cur.p + len(d)] == d:
+                cur.p += len(d)
+            else:
+                return ('exc', 'DelimiterError'), False, i < 0
+        return ('ret', val), False, i < 0
+    if k == 'bad':
+        return ('exc', 'ValueError'), False, False
+    if k == 'pipe':
+        cur.p = len(D)
+        return ('ret', rest if op[1] else None), True, False
+    if k == 'exhaust':
+        cur.p = len(D)
+        return ('ret', None), True, False
+    if k == 'readall' or k == 'iterate':
+        cur.p = len(D)
+        return ('ret', rest), True, False
+    if k == 'readline':
+        return ('ret', _ref_readline(cur, op[1])), False, False
+    if k == 'readlines':
+        hint = op[1]
+        out = []
+        total = 0
+        while True:
+            line = _ref_readline(cur, -1)
+            if not line:
+                break
+            out.append(line)
+            if hint >= 0:
+                total += len(line)
+                if total >= hint:
+                    break
+        return ('ret', out), False, False
+    raise AssertionError(op)
+
+
+def _ref_readline(cur, size):
+    rest = cur.D[cur.p :]
+    i = rest.find(b'\n')
+    stop = i + 1 if i >= 0 else len(rest)
+    if size is not None and size >= 0 and size < stop:
+        stop = size
+    cur.p += stop
+    return rest[:stop]
+
+
+# --------------------------------------------------------------------------
+# Sources and sinks
+# --------------------------------------------------------------------------
+
+
+class Src:
+    """Sync source: read(n) returns min(n, next planned cap, what is left) bytes.
+
+    plan: list of positive caps, one consumed per call; once the plan is used up
+    the cap is `tail` (0 = no cap, i.e. always-full; m > 0 = always at most m).
+    Never returns b'' unless nothing is left.
+    """
+
+    __slots__ = ('data', 'pos', 'plan', 'pi', 'tail', 'max_len', 'viol', 'calls')
+
+    def __init__(self, data, plan, tail, max_len):
+        self.data = data
+        self.pos = 0
+        self.plan = plan
+        self.pi = 0
+        self.tail = tail
+        self.max_len = max_len
+        self.viol = []
+        self.calls = []
+
+    def read(self, n):
+        self.calls.append(n)
+        if n <= 0 or n > self.max_len - self.pos:
+            self.viol.append({'requested': n, 'delivered_so_far': self.pos, 'declared': self.max_len})
+            if n <= 0:
+                return b''
+        if self.pi < len(self.plan):
+            cap = self.plan[self.pi]
+            self.pi += 1
+        else:
+            cap = self.tail or n
+        chunk = self.data[self.pos : self.pos + min(n, cap)]
+        self.pos += len(chunk)
+        return chunk
+
+
+class Sink:
+    __slots__ = ('parts',)
+
+    def __init__(self):
+        self.parts = []
+
+    def write(self, b):
+        self.parts.append(b)
+
+
+class ASink:
+    __slots__ = ('parts',)
+
+    def __init__(self):
+        self.parts = []
+
+    async def write(self, b):
+        self.parts.append(b)
+
+
+async def _agen(chunks):
+    for c in chunks:
+        yield c
+
+
+async def _collect(r):
+    out = []
+    async for c in r:
+        out.append(c)
+    return b''.join(out)
+
+
+def run_coro(coro):
+    """Minimal runner: nothing in the readers/source/sink really suspends."""
+    try:
+        coro.send(None)
+    except StopIteration as e:
+        return e.value
+    coro.close()
+    raise RuntimeError('coroutine suspended unexpectedly')
+
+
+# --------------------------------------------------------------------------
+# Executing one op on the real readers
+# --------------------------------------------------------------------------
+
+
+def do_sync(r, op):
+    k = op[0]
+    if k == 'read':
+        return r.read(op[1])
+    if k == 'peek':
+        return r.peek(op[1])
+    if k == 'ru':
+        return r.read_until(op[1], op[2], op[3])
+    if k == 'bad':
+        return r.read_until(op[1])
+    if k == 'pipe':
+        if op[1]:
+            s = Sink()
+            r.pipe(s)
+            return b''.join(s.parts)
+        r.pipe()
+        return None
+    if k == 'pu':
+        if op[2]:
+            s = Sink()
+            r.pipe_until(op[1], s, op[3])
+            return b''.join(s.parts)
+        r.pipe_until(op[1], None, op[3])
+        return None
+    if k == 'readline':
+        return r.readline(op[1])
+    if k == 'readlines':
+        return r.readlines(op[1])
+    if k == 'exhaust':
+        r.exhaust()
+        return None
+    raise AssertionError(op)
+
+
+def do_async(r, op):
+    k = op[0]
+    if k == 'read':
+        return run_coro(r.read(op[1]))
+    if k == 'peek':
+        return run_coro(r.peek(op[1]))
+    if k == 'ru':
+        return run_coro(r.read_until(op[1], op[2], op[3]))
+    if k == 'bad':
+        return run_coro(r.read_until(op[1]))
+    if k == 'pipe':
+        if op[1]:
+            s = ASink()
+            run_coro(r.pipe(s))
+            return b''.join(s.parts)
+        run_coro(r.pipe())
+        return None
+    if k == 'pu':
+        if op[2]:
+            s = ASink()
+            run_coro(r.pipe_until(op[1], s, op[3]))
+            return b''.join(s.parts)
+        run_coro(r.pipe_until(op[1], None, op[3]))
+        return None
+    if k == 'exhaust':
+        run_coro(r.exhaust())
+        return None
+    if k == 'readall':
+        return run_coro(r.readall())
+    if k == 'iterate':
+        return run_coro(_collect(r))
+    raise AssertionError(op)
+
+
+class Probe(AsyncReader):
+    """Diagnostic subclass, used ONLY to classify an async failure (never for the verdict).
+
+    It re-yields what the original `_iter_delimited` yields and records every yield
+    whose bytes were not consumed from the reader, i.e. the white-box position
+    `_consumed - (_buffer_len - _buffer_pos)` did not advance by len(chunk).
+    """
+
+    hits = []
+    path = ()
+
+    async def _iter_delimited(self, delimiter, size_hint=0):
+        inner = AsyncReader._iter_delimited(self, delimiter, size_hint)
+        while True:
+            before = self._consumed - (self._buffer_len - self._buffer_pos)
+            try:
+                chunk = await inner.__anext__()
+            except StopAsyncIteration:
+                return
+            adv = self._consumed - (self._buffer_len - self._buffer_pos) - before
+            if adv != len(chunk):
+                Probe.hits.append((Probe.path, len(chunk), adv))
+            yield chunk
+
+
+# --------------------------------------------------------------------------
+# Differential driver
+# --------------------------------------------------------------------------
+
+
+class Lv:
+    """One reader (top-level or delimited child) paired with its flat cursor."""
+
+    __slots__ = ('r', 'cur', 'declared', 'parent', 'nf', 'depth')
+
+    def __init__(self, r, cur, declared, parent, nf):
+        self.r = r
+        self.cur = cur
+        self.declared = declared  # sync: max_stream_len the reader was created with
+        self.parent = parent
+        self.nf = nf  # child only: its delimiter does not occur in the parent's rest
+        self.depth = 0 if parent is None else parent.depth + 1
+
+
+class Runner:
+    def __init__(self, kind):
+        self.kind = kind
+        self.is_async = kind == 'async'
+        self.do = do_async if self.is_async else do_sync
+        self.ob_ret = OB_ASYNC_RET if self.is_async else OB_SYNC_RET
+        self.cases = 0
+        self.fails = {}
+        self.counts = {}
+        self.hangs = 0
+        self.cfg = None
+        self.history = None
+        self.src = None
+        self.cs = 0
+        self.watchdog = WATCHDOG_S
+        self.confirming = False
+        self.reader_cls = AsyncReader if self.is_async else SyncReader
+        self.probing = False
+
+    # cfg = (data, cs, chunking, max_len)
+    #   sync : chunking = (plan tuple, tail cap), max_len = declared max_stream_len
+    #   async: chunking = tuple of bytes chunks,  max_len = None
+    def run(self, cfg, history):
+        """Run one (configuration, history); True iff the whole history was executed."""
+        self.cases += 1
+        try:
+            return self._run(cfg, history)
+        except RetryHistory:
+            # a watchdog expiry is only reported if it is reproduced (with a longer
+            # allowance) on a fresh reader: hangs are deterministic, scheduler stalls are not
+            self.watchdog = WATCHDOG_CONFIRM_S
+            self.confirming = True
+            try:
+                return self._run(cfg, history)
+            finally:
+                self.watchdog = WATCHDOG_S
+                self.confirming = False
+
+    def _run(self, cfg, history):
+        # Watchdog: one interval timer per history (a history is at most a few dozen
+        # micro-operations, so every single op runs under it); self.at names the op in progress.
+        try:
+            signal.setitimer(signal.ITIMER_REAL, self.watchdog)
+            try:
+                return self._run_history(cfg, history)
+            finally:
+                signal.setitimer(signal.ITIMER_REAL, 0)
+        except Hang:
+            signal.setitimer(signal.ITIMER_REAL, 0)
+            if not self.confirming:
+                raise RetryHistory()
+            L, pth, op, exp = self.at
+            self.fail(
+                OB_TERM, L, pth, op, None, exp,
+                'no result within %.1f s, reproduced on a fresh reader with a %.1f s allowance' % (WATCHDOG_S, WATCHDOG_CONFIRM_S),
+            )
+            self.hangs += 1
+            if self.hangs >= MAX_HANGS_PER_UNIT:
+                raise StopUnit()
+            return False
+
+    def _run_history(self, cfg, history):
+        self.cfg = cfg
+        self.history = history
+        data, cs, chunking, max_len = cfg
+        self.cs = cs
+        if self.is_async:
+            top = Lv(self.reader_cls(_agen(chunking), cs), Cur(data), None, None, False)
+        else:
+            self.src = Src(data, chunking[0], chunking[1], max_len)
+            top = Lv(SyncReader(self.src.read, max_len, cs), Cur(data[:max_len]), max_len, None, False)
+        return self.run_ops(top, history, ())
+
+    def run_ops(self, L, ops, path):
+        idx = 0
+        for op in ops:
+            pth = path + (idx,)
+            idx += 1
+            if op[0] == 'delimit':
+                if not self.do_delimit(L, op, pth):
+                    return False
+            elif not self.step(L, op, pth):
+                return False
+        return True
+
+    def step(self, L, op, pth):
+        exp, eof_must, nf = ref_apply(L.cur, op, self.cs)
+        if self.probing:
+            Probe.path = pth
+        self.at = (L, pth, op, exp)  # for the watchdog (armed around the whole history)
+        try:
+            got = ('ret', self.do(L.r, op))
+        except DelimiterError:
+            got = ('exc', 'DelimiterError')
+        except Exception as e:
+            got = ('exc', type(e).__name__, repr(e))
+        if got[0] != exp[0] or got[1] != exp[1]:
+            self.fail(self.ob_ret, L, pth, op, got, exp, None, nf)
+            return False
+        if not self.post(L, op, pth, nf, eof_must):
+            return False
+        if exp[0] == 'exc' and op[0] != 'bad':
+            return False  # both raised DelimiterError: the history stops here (not a failure)
+        return True
+
+    def do_delimit(self, L, op, pth):
+        d, sub, end = op[1], op[2], op[3]
+        rest = L.cur.D[L.cur.p :]
+        i = rest.find(d)
+        content = rest[:i] if i >= 0 else rest
+        try:
+            child = L.r.delimit(d)
+        except Exception as e:
+            self.fail(self.ob_ret, L, pth, op, ('exc', type(e).__name__, repr(e)), ('ret', '<child reader>'), None)
+            return False
+        C = Lv(child, Cur(content), None if self.is_async else child._max_bytes_remaining, L, i < 0)
+        if not self.run_ops(C, sub, pth):
+            return False
+        # the child pulls lazily from the parent: always drain it before touching the parent
+        endop = ('exhaust',) if end == 'exhaust' else ('read', -1)
+        if not self.step(C, endop, pth + (len(sub),)):
+            return False
+        L.cur.p += len(content)  # parent is now AT the delimiter (or at the end of D)
+        return self.post(L, op, pth, False, False)
+
+    def post(self, L, op, pth, nf, eof_must):
+        if self.is_async:
+            return self.post_async(L, op, pth, nf, eof_must)
+        return self.post_sync(L, op, pth)
+
+    def post_sync(self, L, op, pth):
+        X = L
+        own = True
+        while X is not None:
+            r = X.r
+            bp = r._buffer_pos
+            bl = r._buffer_len
+            mr = r._max_bytes_remaining
+            if not (0 <= bp <= bl == len(r._buffer) and mr >= 0):
+                short = X.declared > len(X.cur.D)
+                known = bp > bl and mr == 0 and short and not (own and op[0] in ('peek', 'bad'))
+                self.fail(
+                    OB_KNOWN_SYNC if known else OB_SYNC_INV,
+                    L,
+                    pth,
+                    op,
+                    None,
+                    None,
+                    {
+                        'violated_on_reader_depth': X.depth,
+                        '_buffer_pos': bp,
+                        '_buffer_len': bl,
+                        'len(_buffer)': len(r._buffer),
+                        '_max_bytes_remaining': mr,
+                        'declared_max_stream_len_of_that_reader': X.declared,
+                        'actual_content_len_of_that_reader': len(X.cur.D),
+                    },
+                )
+                return False
+            X = X.parent
+            own = False
+        if self.src.viol:
+            self.fail(OB_SRC, L, pth, op, None, None, {'violations': self.src.viol[:3], 'source_calls': self.src.calls[:40]})
+            return False
+        return True
+
+    def post_async(self, L, op, pth, nf, eof_must):
+        X = L
+        while X is not None:
+            r = X.r
+            if not (0 <= r._buffer_pos <= r._buffer_len == len(r._buffer)):
+                self.fail(
+                    OB_ASYNC_INV,
+                    L,
+                    pth,
+                    op,
+                    None,
+                    None,
+                    {
+                        'violated_on_reader_depth': X.depth,
+                        '_buffer_pos': r._buffer_pos,
+                        '_buffer_len': r._buffer_len,
+                        'len(_buffer)': len(r._buffer),
+                    },
+                )
+                return False
+            X = X.parent
+        r = L.r
+        cur = L.cur
+        # signature of the known defect: a delimited op whose delimiter is NOT in rest, the
+        # source has run out, and the reader still buffers more bytes than remain after the cursor
+        left = r._buffer_len - r._buffer_pos
+        if nf and r._exhausted and left > len(cur.D) - cur.p:
+            self.fail(
+                OB_KNOWN_ASYNC,
+                L,
+                pth,
+                op,
+                None,
+                None,
+                {
+                    'on_reader_depth': L.depth,
+                    'unconsumed_buffered_bytes': left,
+                    'bytes_remaining_after_cursor': len(cur.D) - cur.p,
+                    'tell()': r.tell(),
+                    'cursor_p': cur.p,
+                    'op_ran_to_end_of_D': cur.p == len(cur.D),
+                },
+            )
+            return False
+        Y = L
+        X = L.parent
+        while X is not None:
+            # all of X's rest belongs to child Y (delimiter not found) and Y's source ran out
+            if Y.nf and Y.r._exhausted and X.r._buffer_len - X.r._buffer_pos > 0:
+                self.fail(
+                    OB_KNOWN_ASYNC,
+                    L,
+                    pth,
+                    op,
+                    None,
+                    None,
+                    {
+                        'on_reader_depth': X.depth,
+                        'via_child_depth': Y.depth,
+                        'unconsumed_buffered_bytes': X.r._buffer_len - X.r._buffer_pos,
+                        'bytes_remaining_after_cursor': 0,
+                        'tell()': X.r.tell(),
+                        'cursor_p': len(X.cur.D),
+                        'op_ran_to_end_of_D': True,
+                    },
+                )
+                return False
+            Y = X
+            X = X.parent
+        t = r.tell()
+        if t != cur.p:
+            self.fail(OB_TELL, L, pth, op, t, cur.p, {'on_reader_depth': L.depth}, nf)
+            return False
+        e = r.eof
+        if e and cur.p != len(cur.D):
+            self.fail(OB_EOF, L, pth, op, True, False, {'why': 'eof claimed early', 'cursor_p': cur.p, 'len_D': len(cur.D), 'on_reader_depth': L.depth}, nf)
+            return False
+        if eof_must and not e:
+            self.fail(OB_EOF, L, pth, op, False, True, {'why': 'eof not reported at end of stream', 'on_reader_depth': L.depth}, nf)
+            return False
+        return True
+
+    def probe_hits(self, pth):
+        """Re-run the current history on the Probe subclass; hits observed during op `pth`."""
+        sub = Runner('async')
+        sub.probing = True
+        sub.reader_cls = Probe
+        Probe.hits = []
+        try:
+            sub.run(self.cfg, self.history)
+        except (RetryHistory, StopUnit):
+            pass
+        return [h for h in Probe.hits if h[0] == pth]
+
+    def fail(self, ob, L, pth, op, got, exp, detail, nf=False):
+        if self.probing:
+            return
+        if self.is_async and ob in (OB_ASYNC_RET, OB_TELL, OB_EOF):
+            # Same known defect, different symptom?  Only if the reference says the delimiter is
+            # NOT in rest (for this op, or for the delimit() that created this reader or an
+            # ancestor) AND the defect's mechanism is observed during this very op.
+            X = L
+            while X is not None and not nf:
+                nf = X.nf
+                X = X.parent
+            if nf:
+                hits = self.probe_hits(pth)
+                if hits:
+                    detail = {
+                        'symptom_obligation': ob,
+                        'symptom_detail': detail,
+                        'mechanism_observed_during_this_op': [
+                            {'_iter_delimited_yielded_bytes': h[1], 'position_advanced_by': h[2]} for h in hits[:3]
+                        ],
+                    }
+                    ob = OB_KNOWN_ASYNC
+        self.counts[ob] = self.counts.get(ob, 0) + 1
+        lst = self.fails.setdefault(ob, [])
+        data, cs, chunking, max_len = self.cfg
+        key = (len(data), len(self.history), len(pth))
+        if len(lst) >= KEEP_PER_OBLIGATION:
+            # keep the smallest witnesses (first found among equals)
+            worst = max(range(len(lst)), key=lambda j: (lst[j]['_key'], j))
+            if key >= lst[worst]['_key']:
+                return
+            del lst[worst]
+        inp = {
+            'reader': 'falcon.asgi.reader.BufferedReader' if self.is_async else 'falcon.util.reader.BufferedReader',
+            'data': jb(data),
+            'chunk_size': cs,
+            'history': [op_json(o) for o in self.history],
+            'failing_op_index': list(pth),
+            'failing_op': op_json(op),
+            'failing_op_on_reader_depth': L.depth,
+            'got': jb(got),
+            'expected': jb(exp),
+        }
+        if self.is_async:
+            inp['chunking'] = jb(list(chunking))
+        else:
+            inp['max_len'] = max_len
+            inp['chunking'] = {'per_call_caps': list(chunking[0]), 'then_cap': chunking[1] or 'full'}
+            inp['source_calls'] = self.src.calls[:40]
+        if detail is not None:
+            inp['detail'] = jb(detail)
+        lst.append({'obligation': ob, 'input': inp, '_key': key})
+
+
+# --------------------------------------------------------------------------
+# Enumeration building blocks
+# --------------------------------------------------------------------------
+
+EXTRA_DELIMS = (b'\r', b'x\n', b'\n\r\n', b'\r\n\r')  # used by the random strata only
+
+
+def delims_for(cs, extra=False):
+    pool = DELIMS + EXTRA_DELIMS if extra else DELIMS
+    return [d for d in pool if len(d) <= cs]
+
+
+def all_data(n):
+    out = [b'']
+    for _ in range(n):
+        out = [x + a for x in out for a in ALPHABET]
+    return out
+
+
+def compositions(n):
+    if n == 0:
+        return [()]
+    out = []
+    for mask in range(1 << (n - 1)):
+        comp = []
+        run = 1
+        for bit in range(n - 1):
+            if mask >> bit & 1:
+                comp.append(run)
+                run = 1
+            else:
+                run += 1
+        comp.append(run)
+        out.append(tuple(comp))
+    return out
+
+
+def split(data, comp):
+    out = []
+    i = 0
+    for k in comp:
+        out.append(data[i : i + k])
+        i += k
+    return tuple(out)
+
+
+def with_gaps(pieces):
+    out = [b'']
+    for p in pieces:
+        out.append(p)
+        out.append(b'')
+    return tuple(out)
+
+
+def dedupe(seq):
+    seen = set()
+    out = []
+    for x in seq:
+        if x not in seen:
+            seen.add(x)
+            out.append(x)
+    return out
+
+
+def async_chunkings_all(data, mode):
+    out = []
+    single_empties = mode == 'full'
+    for comp in compositions(len(data)):
+        pieces = split(data, comp)
+        out.append(pieces)
+        if mode != 'exact' or len(comp) <= 2 or len(comp) == len(data):
+            out.append(with_gaps(pieces))
+        if single_empties:
+            for j in range(len(pieces) + 1):
+                out.append(pieces[:j] + (b'',) + pieces[j:])
+    return dedupe(out)
+
+
+def sync_chunkings_all(n):
+    # every composition of the source length as per-call caps (then uncapped) + always-1-byte;
+    # the one-part composition is "always full"
+    return dedupe([(comp, 0) for comp in compositions(n)] + [((), 1)]) if n else [((), 0)]
+
+
+def max_len_variants(n):
+    return dedupe([n, n + 3, max(n - 2, 0)])
+
+
+def async_cover(data):
+    n = len(data)
+    base = [(data,), tuple(data[i : i + 1] for i in range(n))]
+    base += [(data[:k], data[k:]) for k in range(1, n)]
+    for d in DELIMS:
+        if len(d) < 2:
+            continue
+        i = data.find(d)
+        while i >= 0:
+            pieces = (data[:i],) + tuple(d[j : j + 1] for j in range(len(d))) + (data[i + len(d) :],)
+            base.append(tuple(p for p in pieces if p))
+            i = data.find(d, i + 1)
+    out = []
+    for c in dedupe(base):
+        out.append(c)
+        out.append(with_gaps(c))
+    return out
+
+
+def sync_cover(n):
+    return [((), 0), ((), 1), ((), 2), ((), 3)] + [((k,), 0) for k in range(1, n)]
+
+
+def compact_alphabet(kind, cs, d):
+    d2 = b'\n' if d != b'\n' else b'\r'
+    ops = [('read', None)] + [('read', n) for n in dedupe([1, cs, cs + 1])]
+    ops += [('peek', -1)] + ([('peek', 1)] if cs > 1 else [])
+    ops += [('ru', d, -1, False), ('ru', d, -1, True), ('ru', d, cs, False), ('ru', d, 1, True)]
+    ops += [('pipe', True), ('pu', d, True, False), ('pu', d, True, True), ('exhaust',)]
+    ops += [
+        ('delimit', d, (('read', 1),), 'exhaust'),
+        ('delimit', d, (), 'read'),
+        ('delimit', d, (('delimit', d2, (('read', 1),), 'read'),), 'exhaust'),
+    ]
+    ops += [('bad', b'x' * (cs + 1))]
+    if kind == 'sync':
+        ops += [('readline', -1), ('readline', cs), ('readlines', -1)]
+    else:
+        ops += [('readall',), ('iterate',)]
+    return ops
+
+
+def rand_size(rng, cs, p_unbounded):
+    if rng.random() < p_unbounded:
+        return rng.choice((None, -1))
+    return rng.choice((0, 1, max(cs - 1, 0), cs, cs + 1, 2 * cs + 1))
+
+
+def rand_op(rng, kind, cs, depth, state):
+    """One random op over the full op alphabet; state['iter'] guards the single `async for`."""
+    ds = delims_for(cs, True)
+    while True:
+        x = rng.random() * 100
+        if x < 22:
+            return ('read', rand_size(rng, cs, 0.12))
+        if x < 32:
+            return ('peek', rng.choice((-1, 0, 1, cs, cs + 1)))
+        if x < 54:
+            return ('ru', rng.choice(ds), rand_size(rng, cs, 0.5), rng.random() < 0.4)
+        if x < 62:
+            return ('pu', rng.choice(ds), rng.random() < 0.8, rng.random() < 0.4)
+        if x < 64:
+            return ('pipe', rng.random() < 0.7)
+        if x < 66:
+            return ('exhaust',)
+        if x < 68:
+            return ('bad', rng.choice((b'', b'\n' * (cs + 1), b'\r\n' * cs)))
+        if x < 84:
+            if depth >= 2:
+                continue
+            sub_state = {'iter': False}
+            sub = tuple(rand_op(rng, kind, cs, depth + 1, sub_state) for _ in range(rng.choice((0, 1, 1, 2, 2, 3))))
+            return ('delimit', rng.choice(ds), sub, rng.choice(('exhaust', 'read')))
+        if kind == 'sync':
+            if x < 95:
+                return ('readline', rand_size(rng, cs, 0.5))
+            return ('readlines', rng.choice((-1, -1, 0, 1, cs, 2 * cs + 1)))
+        if x < 90:
+            return ('readall',)
+        if not state['iter']:
+            state['iter'] = True
+            return ('iterate',)
+
+
+def rand_history(rng, kind, cs, lo, hi):
+    state = {'iter': False}
+    return tuple(rand_op(rng, kind, cs, 0, state) for _ in range(rng.randint(lo, hi)))
+
+
+def unit_rng(seed, *key):
+    return random.Random(zlib.crc32(repr((seed,) + key).encode()))
+
+
+# --------------------------------------------------------------------------
+# Work units (each is regenerated inside the worker from a small tuple)
+# --------------------------------------------------------------------------
+
+
+def dfs(runner, cfg, alphabet, prefix, maxlen):
+    ok = runner.run(cfg, prefix)
+    if ok and len(prefix) < maxlen:
+        for op in alphabet:
+            if op[0] == 'iterate' and op in prefix:
+                continue  # `async for` at most once per reader
+            dfs(runner, cfg, alphabet, prefix + (op,), maxlen)
+
+
+def unit_seeds(runner, kind):
+    if kind == 'async':
+        hello = b'hello world'
+        runner.run((hello, 8, (hello,), None), (('ru', b'\r\n', -1, False), ('read', -1)))
+        runner.run((hello, 8, (hello,), None), (('ru', b'\r\n', 5, False), ('read', -1)))
+        runner.run((hello, 8, (b'hello', b' world'), None), (('delimit', b'\r\n', (('read', 3),), 'exhaust'), ('read', -1)))
+        runner.run((b'ab\r\ncd', 8, (b'ab\r', b'\ncd'), None), (('ru', b'\r\n', -1, True), ('read', -1)))
+    else:
+        runner.run((b'a', 4, ((), 0), 10), (('read', 3),))
+        runner.run((b'a', 4, ((), 0), 1), (('read', 3), ('delimit', b'--', (('ru', b'abc', -1, False),), 'exhaust')))
+        runner.run((b'a\nbbbb', 4, ((), 0), 6), (('delimit', b'\n', (('read', 3),), 'exhaust'), ('read', -1)))
+        runner.run((b'ab\r\ncd', 3, ((), 1), 6), (('ru', b'\r\n', -1, True), ('readline', -1)))
+
+
+def unit_a(runner, kind, data, cs, hist, mode, multibyte_only):
+    # mode: 'full' | 'reduced' | 'exact' | 'inexact' (see A_MODES)
+    n = len(data)
+    if kind == 'async':
+        if mode == 'inexact':
+            return
+        cfgs = [(data, cs, ch, None) for ch in async_chunkings_all(data, mode)]
+    else:
+        cfgs = []
+        for ml in max_len_variants(n):
+            if (mode == 'exact' and ml != n) or (mode == 'inexact' and ml == n):
+                continue
+            for ch in sync_chunkings_all(n):
+                if mode == 'full' or ml == n or len(ch[0]) <= 2:
+                    cfgs.append((data, cs, ch, ml))
+    for d in delims_for(cs):
+        if multibyte_only and cs >= 2 and len(d) < 2:
+            continue
+        alphabet = compact_alphabet(kind, cs, d)
+        for cfg in cfgs:
+            for op in alphabet:
+                dfs(runner, cfg, alphabet, (op,), hist)
+
+
+def unit_b(runner, kind, data, per_cfg, seed):
+    rng = unit_rng(seed, 'b', kind, data)
+    if kind == 'async':
+        base = [(ch, None) for ch in async_cover(data)]
+    else:
+        base = [(ch, ml) for ml in max_len_variants(len(data)) for ch in sync_cover(len(data))]
+    for ch, ml in base:
+        for cs in range(1, MAX_CS + 1):
+            for _ in range(per_cfg):
+                runner.run((data, cs, ch, ml), rand_history(rng, kind, cs, 1, 3))
+
+
+def rand_data(rng, maxlen):
+    n = rng.choice(range(maxlen + 1)) if rng.random() < 0.3 else rng.randint(max(maxlen - 4, 0), maxlen)
+    out = bytearray(rng.choice(b'\r\n\nxx') for _ in range(n))
+    if n >= 2 and rng.random() < 0.5:
+        d = rng.choice(DELIMS + EXTRA_DELIMS)
+        if len(d) <= n:
+            i = rng.randint(0, n - len(d))
+            out[i : i + len(d)] = d
+    return bytes(out)
+
+
+def unit_c(runner, kind, block, count, maxlen, seed):
+    rng = unit_rng(seed, 'c', kind, block)
+    for _ in range(count):
+        data = rand_data(rng, maxlen)
+        cs = rng.randint(1, MAX_CS)
+        n = len(data)
+        if kind == 'async':
+            pieces = []
+            i = 0
+            pcut = rng.choice((0.15, 0.4, 0.8, 1.0))
+            pempty = rng.choice((0.0, 0.2, 0.5))
+            for j in range(1, n + 1):
+                if j == n or rng.random() < pcut:
+                    while rng.random() < pempty:
+                        pieces.append(b'')
+                    pieces.append(data[i:j])
+                    i = j
+            while rng.random() < pempty:
+                pieces.append(b'')
+            cfg = (data, cs, tuple(pieces), None)
+        else:
+            plan = tuple(rng.randint(1, 4) for _ in range(rng.choice((0, 0, 1, 2, 4, 8))))
+            x = rng.random()
+            ml = n if x < 0.6 else (n + 3 if x < 0.8 else max(n - 2, 0))
+            cfg = (data, cs, (plan, rng.choice((0, 0, 1, 2, 3))), ml)
+        runner.run(cfg, rand_history(rng, kind, cs, 5, 8))
+
+
+def run_unit(arg):
+    index, unit = arg
+    stratum, kind = unit[0], unit[1]
+    runner = Runner(kind)
+    abandoned = False
+    try:
+        if stratum == 'seed':
+            unit_seeds(runner, kind)
+        elif stratum == 'a':
+            unit_a(runner, kind, *unit[2:])
+        elif stratum == 'b':
+            unit_b(runner, kind, *unit[2:])
+        else:
+            unit_c(runner, kind, *unit[2:])
+    except StopUnit:
+        abandoned = True
+    finally:
+        signal.setitimer(signal.ITIMER_REAL, 0)
+    return index, stratum, kind, runner.cases, runner.fails, runner.counts, abandoned
+
+
+def _init_worker():
+    signal.signal(signal.SIGALRM, _on_alarm)
+    # a watchdog expiry can abandon a coroutine object that was created but not yet started
+    warnings.filterwarnings('ignore', message='coroutine .* was never awaited', category=RuntimeWarning)
+
+
+# --------------------------------------------------------------------------
+# Tiers
+# --------------------------------------------------------------------------
+
+TIERS = {
+    # a: list of (min data len, max data len, max history length, mode from A_MODES,
+    #             skip the 1-byte delimiter when chunk_size >= 2?)
+    # b: (min data len, max data len, random histories per (data, chunking, chunk size[, max_len]))
+    # c: (number of random long histories per reader, max data len)
+    'quick': {'a': [(0, 3, 2, 'full', False), (4, 4, 2, 'exact', True), (4, 4, 1, 'inexact', False)], 'b': (5, 7, 1), 'c': (150000, 7)},
+    'thorough': {
+        'a': [(0, 3, 3, 'full', False), (4, 4, 3, 'exact', False), (4, 4, 2, 'inexact', False), (5, 5, 2, 'reduced', False)],
+        'b': (5, 9, 2),
+        'c': (2000000, 9),
+    },
+}
+C_BLOCK = 2500
+A_MODES = {
+    'async': {
+        'full': 'every composition of the data into non-empty consecutive chunks, each also with an empty chunk in every gap (front, between, end) '
+        'and with a single empty chunk inserted at each position',
+        'reduced': 'every composition of the data into non-empty consecutive chunks, each also with an empty chunk in every gap (front, between, end)',
+        'exact': 'every composition of the data into non-empty consecutive chunks; the compositions with <= 2 parts and the all-1-byte one also '
+        'with an empty chunk in every gap (front, between, end)',
+        'inexact': None,
+    },
+    'sync': {
+        'full': 'declared max_stream_len in {len, len+3 (short source), max(len-2,0) (source longer than declared)} x every composition of the '
+        'source length as per-call short-read caps (includes always-full) plus always-1-byte',
+        'reduced': 'declared max_stream_len = len x every composition of the source length as per-call short-read caps (includes always-full) plus '
+        'always-1-byte, and max_stream_len in {len+3, max(len-2,0)} x the compositions with <= 2 parts plus always-1-byte',
+        'exact': 'declared max_stream_len = len x every composition of the source length as per-call short-read caps (includes always-full) plus always-1-byte',
+        'inexact': 'declared max_stream_len in {len+3 (short source), max(len-2,0)} x the compositions of the source length with <= 2 parts plus always-1-byte',
+    },
+}
+
+
+def build_units(tier, seed):
+    t = TIERS[tier]
+    units = []
+    for kind in ('sync', 'async'):
+        units.append(('seed', kind))
+        for lo, hi, hist, mode, multibyte_only in t['a']:
+            if A_MODES[kind][mode] is None:
+                continue
+            for data in all_data_range(lo, hi):
+                for cs in range(1, MAX_CS + 1):
+                    units.append(('a', kind, data, cs, hist, mode, multibyte_only))
+        lo, hi, per_cfg = t['b']
+        for data in all_data_range(lo, hi):
+            units.append(('b', kind, data, per_cfg, seed))
+        total, maxlen = t['c']
+        for block in range((total + C_BLOCK - 1) // C_BLOCK):
+            units.append(('c', kind, block, min(C_BLOCK, total - block * C_BLOCK), maxlen, seed))
+    return units
+
+
+def all_data_range(lo, hi):
+    out = []
+    cur = [b'']
+    for n in range(hi + 1):
+        if n >= lo:
+            out.extend(cur)
+        cur = [x + a for x in cur for a in ALPHABET]
+    return out
+
+
+def unit_cost(u):
+    if u[0] == 'a':
+        n = len(u[2])
+        return (2 ** n) * (25 ** u[4]) * u[3] * ({'full': 3, 'reduced': 2, 'exact': 1, 'inexact': 1}[u[5]] if u[1] == 'sync' else 2)
+    if u[0] == 'b':
+        return 100 * len(u[2]) * u[3]
+    if u[0] == 'c':
+        return u[3] * 3
+    return 1
+
+
+def bound_text(tier, seed, kind, strata_cases):
+    t = TIERS[tier]
+    a_parts = []
+    for lo, hi, hist, mode, multibyte_only in t['a']:
+        ch = A_MODES[kind][mode]
+        if ch is None:
+            continue
+        if multibyte_only:
+            ch += ' [in this sub-stratum the 1-byte delimiter LF is used only with chunk_size 1]'
+        a_parts.append(
+            'ALL data of length %d..%d over {CR,LF,x} x %s x chunk_size 1..4 x every delimiter of length <= chunk_size from '
+            '[LF, CRLF, LFLF, CRCRLF, CRLFCRLF] x ALL histories of length 1..%d (a history is not extended past a DelimiterError) over the compact op alphabet'
+            % (lo, hi, ch, hist)
+        )
+    compact = (
+        'compact op alphabet (cs=chunk_size, d=the configuration delimiter): read(None), read(1), read(cs), read(cs+1), peek(-1), peek(1), '
+        'read_until(d), read_until(d,consume), read_until(d,size=cs), read_until(d,size=1,consume), pipe(sink), pipe_until(d,sink), '
+        'pipe_until(d,sink,consume), exhaust, delimit(d)[read(1); exhaust], delimit(d)[read() to end], '
+        'delimit(d)[delimit(d2)[read(1); read() to end]; exhaust], read_until(<delimiter of length cs+1>) -> ValueError, '
+        + ('readline(), readline(cs), readlines()' if kind == 'sync' else 'readall(), async-for iteration (once)')
+    )
+    lo, hi, per_cfg = t['b']
+    if kind == 'async':
+        bch = 'covering chunkings (one chunk, all 1-byte chunks, every 2-piece split, every occurrence of a multi-byte delimiter split byte-by-byte; each with and without empty chunks in every gap)'
+    else:
+        bch = 'max_stream_len in {len, len+3, len-2} x covering short-read plans (always-full, always<=1, always<=2, always<=3, first read capped at k for k=1..len-1)'
+    total, maxlen = t['c']
+    return (
+        'tier=%s seed=%d. Stratum A (exhaustive): %s; %s. [%d cases]. '
+        'Stratum B (covering + seeded sample): ALL data of length %d..%d x %s x chunk_size 1..4 x %d seeded-random histor%s of length 1..3 '
+        'over the full op alphabet (sizes 0,1,cs-1,cs,cs+1,2cs+1,None,-1; peek -1,0,1,cs,cs+1; read_until/pipe_until with/without consume, '
+        'size cap, destination; pipe with/without destination; empty and over-long delimiters; readline/readlines(hint) [sync]; readall/iterate [async]; '
+        'delimit nested to depth 2 with child sub-histories of 0..3 ops, child always drained by exhaust() or read(); delimiters of length <= cs from '
+        '[LF, CRLF, LFLF, CRCRLF, CRLFCRLF, CR, xLF, LFCRLF, CRLFCR]) [%d cases]. '
+        'Stratum C (seeded random): %d histories of length 5..8 over the full op alphabet on random data of length 0..%d, random chunk_size 1..4, '
+        'random chunking (%s) [%d cases]. Stratum S: %d explicit seed cases (the known witnesses). '
+        'Every history (hence every op in it) runs under a %.0f s interval-timer watchdog; an expiry is re-run on a fresh reader and reported only if reproduced. '
+        'After every op: result/exception, white-box buffer invariant%s.'
+        % (
+            tier,
+            seed,
+            ' PLUS '.join(a_parts),
+            compact,
+            strata_cases.get('a', 0),
+            lo,
+            hi,
+            bch,
+            per_cfg,
+            'y' if per_cfg == 1 else 'ies',
+            strata_cases.get('b', 0),
+            total,
+            maxlen,
+            'random cut points, random runs of empty chunks' if kind == 'async' else 'random per-call caps 1..4, random tail cap, random max_stream_len variant',
+            strata_cases.get('c', 0),
+            strata_cases.get('seed', 0),
+            WATCHDOG_S,
+            ', tell() and eof' if kind == 'async' else ', _max_bytes_remaining >= 0, source never asked for n <= 0 or beyond the declared length',
+        )
+    )
+
+
+def main(argv):
+    tier = argv[1]
+    seed = int(argv[2])
+    units = build_units(tier, seed)
+    order = sorted(range(len(units)), key=lambda i: -unit_cost(units[i]))
+    ctx = mp.get_context('fork')
+    with ctx.Pool(16, initializer=_init_worker) as pool:
+        results = list(pool.imap_unordered(run_unit, [(i, units[i]) for i in order], chunksize=1))
+    results.sort(key=lambda r: r[0])
+    out = []
+    for kind, name in (('sync', NAME_SYNC), ('async', NAME_ASYNC)):
+        cases = 0
+        strata = {}
+        counts = {}
+        fails = {}
+        abandoned = 0
+        for _, stratum, k, n, f, c, ab in results:
+            if k != kind:
+                continue
+            cases += n
+            strata[stratum] = strata.get(stratum, 0) + n
+            abandoned += ab
+            for ob, m in c.items():
+                counts[ob] = counts.get(ob, 0) + m
+            for ob, lst in f.items():
+                fails.setdefault(ob, []).extend(lst)
+        failures = []
+        for ob in sorted(fails):
+            lst = sorted(fails[ob], key=lambda x: x['_key'])[:KEEP_PER_OBLIGATION]
+            for x in lst:
+                failures.append({'obligation': x['obligation'], 'input': x['input']})
+        out.append(
+            {
+                'name': name,
+                'bound': bound_text(tier, seed, kind, strata),
+                'cases': cases,
+                'failures': failures,
+                'failure_counts': {ob: counts[ob] for ob in sorted(counts)},
+                'cases_per_stratum': strata,
+                'units_abandoned_after_%d_hangs' % MAX_HANGS_PER_UNIT: abandoned,
+            }
+        )
+    json.dump(out, sys.stdout)
+    sys.stdout.write('\n')
+
+
+if __name__ == '__main__':
+    main(sys.argv)
+'''
+
+# ---------------------------------------------------------------------------
+# kill matrix (file relative to the repository root, old text occurring exactly once, new text, expected obligation substring)
+
+_U = 'falcon/util/reader.py'
+_A = 'falcon/asgi/reader.py'
+KILLS = [
+    # the budget is not reduced by what the source delivered
+    (_U, "        self._max_bytes_remaining -= chunk_len\n        if chunk_len == size:\n", "        if chunk_len == size:\n",
+     '_perform_read#budget-deducts-the-returned-bytes'),
+    # a slice bound off by one when dishing from the buffer
+    (_U, "            return self._buffer[self._buffer_pos - size : self._buffer_pos]\n", "            return self._buffer[self._buffer_pos - size + 1 : self._buffer_pos]\n",
+     '_read#returns-the-next-bytes-of-the-view'),
+    # _buffer_pos not reset after the buffer was replaced by its unread tail
+    (_U, "                    read_size\n                )\n                self._buffer_pos = 0\n", "                    read_size\n                )\n",
+     '_fill_buffer#view-unchanged'),
+    # _buffer_len not updated after a refill
+    (_U, "        self._buffer = self._perform_read(self._chunk_size)\n        self._buffer_len = len(self._buffer)\n", "        self._buffer = self._perform_read(self._chunk_size)\n",
+     '_read#invariant-buffer-len-is-len-of-buffer'),
+    # peek consumes what it returns
+    (_U, "        return self._buffer[self._buffer_pos : self._buffer_pos + size]\n",
+     "        self._buffer_pos += size\n        return self._buffer[self._buffer_pos - size : self._buffer_pos]\n", 'peek#view-unchanged'),
+    # the chunk-border fragment is one byte too short: a delimiter straddling two chunks is missed
+    (_U, "                offset = max(self._buffer_len - delimiter_len_1, self._buffer_pos)\n",
+     "                offset = max(self._buffer_len - delimiter_len_1 + 1, self._buffer_pos)\n", '_read_until#'),
+    # the size cap ignores the buffer position
+    (_U, "            size = min(size, have_bytes + delimiter_pos - self._buffer_pos)\n", "            size = min(size, have_bytes + delimiter_pos)\n", '_read_until#'),
+    # pipe_until skips one byte too few when consuming the delimiter
+    (_U, "            self._buffer_pos += delimiter_len\n", "            self._buffer_pos += delimiter_len - 1\n", 'pipe_until#view-advances-by-the-piped-bytes-plus-the-consumed-delimiter'),
+    # readline reads past the size cap
+    (_U, "        if len(result) < size:\n", "        if len(result) <= size:\n", 'readline#'),
+    # exhaust reads a single chunk only
+    (_U, "    def exhaust(self) -> None:\n        self.pipe()\n", "    def exhaust(self) -> None:\n        self.read(self._chunk_size)\n", 'exhaust#leaves-the-view-empty'),
+    # --- async reader
+    (_A, "        self._buffer_len -= self._buffer_pos\n", "", '_trim_buffer#invariant-buffer-len-is-len-of-buffer'),
+    (_A, "            offset = self._buffer_len - delimiter_len_1\n", "            offset = self._buffer_len - delimiter_len_1 + 1\n", '_iter_delimited#'),
+    (_A, "                    result.append(chunk[:remaining])\n                    self._prepend_buffer(chunk[remaining:])\n",
+     "                    result.append(chunk[:remaining])\n                    self._prepend_buffer(chunk[remaining + 1 :])\n", '_read_from#'),
+    (_A, "        return self._consumed - (self._buffer_len - self._buffer_pos)\n", "        return self._consumed - self._buffer_len\n", 'tell#tell-is-the-number-of-bytes-handed-out'),
+    (_A, "        if chunk:\n            self._consumed += len(chunk)\n", "        if chunk:\n", '_iter_normalized#'),
+    (_A, "                    buffer_pos = self._buffer_pos\n                    self._buffer_pos += size_hint\n                    yield self._buffer[buffer_pos : self._buffer_pos]\n                buffer_pos = self._buffer_pos\n                self._buffer_pos = pos\n",
+     "                    buffer_pos = self._buffer_pos\n                    yield self._buffer[buffer_pos : buffer_pos + size_hint]\n                buffer_pos = self._buffer_pos\n                self._buffer_pos = pos\n",
+     '_iter_delimited#at-every-yield-the-yielded-bytes-are-removed-from-the-view'),
+]
+HARMLESS = [
+    # `>=` -> `>` in the pass-through test: for size == chunk_size with an empty buffer the next branch does exactly the same
+    (_U, "        if self._buffer_len == 0 and size >= self._chunk_size:\n", "        if self._buffer_len == 0 and size > self._chunk_size:\n"),
+    # rename a local, reorder two independent statements
+    (_U, "        read_size = size - (self._buffer_len - self._buffer_pos)\n        result = self._buffer[self._buffer_pos :]\n",
+     "        head = self._buffer[self._buffer_pos :]\n        read_size = size - (self._buffer_len - self._buffer_pos)\n        result = head\n"),
+    (_A, "        self._buffer = self._buffer[self._buffer_pos :]\n        self._buffer_len -= self._buffer_pos\n",
+     "        self._buffer_len -= self._buffer_pos\n        self._buffer = self._buffer[self._buffer_pos :]\n"),
+]
+
+
+ASSUMPTIONS = [
+    'sync source contract (io.RawIOBase.read / wsgi.input.read): read(n) with n > 0 returns a prefix of what the source still holds, of length <= n, '
+    'empty only at the end of the source; nobody else reads from the source while the reader is in use',
+    'size arguments of the public operations are None, -1 or >= 0 (other negative sizes are outside the property: read(-2) is not a cursor operation)',
+    'delimiters are bytes; one delimiter per operation; lengths outside 1..chunk_size are shown to raise ValueError before anything is consumed',
+    'async: the user source is an async iterable of bytes items (any lengths, empty ones included); what the consumers of self._source may assume '
+    '(non-empty chunks, all but the last >= chunk_size, _consumed counts them, _exhausted set at the end) is PROVED of _iter_normalized (a_iter_normalized)',
+    'modular reasoning: callers of sync _read rely on its post-condition including the clause `_read#invariant-buffer-pos-within-buffer`, and the async public '
+    'operations rely on the per-yield contract of _iter_delimited including `_iter_delimited#yielded-bytes-are-consumed`; both clauses are REFUTED on the '
+    'unchanged tree (genuine defects, reported once, at their root) -- everything downstream is proved modulo these two findings',
+    'a delimited sub-reader is the only user of its parent until it is exhausted (multipart usage); then the parent stands at the delimiter',
+    'chunk_size >= 1 (established by both __init__: proved)',
+]
+NOT_DECIDED = [
+    'falcon/cyutil/reader.pyx (what falcon.util.BufferedReader is when the compiled twin is present): Cython source, out of reach of the executor -- '
+    'neither proved nor covered by the bounded stand-in (which imports the pure-Python class)',
+    'termination of any operation (partial correctness only).  The sync defect found by proof (`_read` leaves _buffer_pos > _buffer_len after a short refill) '
+    'makes `sub = r.delimit(d); sub.read_until(e)` spin forever -- the bounded stand-in runs every operation under a watchdog',
+    'async: the composition of SUSPENDED generators with their consumers is proved modularly -- (1) each generator, run alone, keeps "at every yield exactly the '
+    'yielded bytes are removed from the view" (deductive, yield hook); (2) _read_from / pipe / pipe_until / read / readall / read_until are proved against ANY '
+    'generator keeping that contract (stub ViewGen with effects at fetch time = lazy semantics).  The remaining meta-step -- a suspended generator is only ever '
+    'resumed when nobody touched the reader in between (_read_from calls _prepend_buffer only right before abandoning the generator) -- is by inspection; '
+    'the bounded stand-in covers it',
+    'delimit (sync and async): construction of the sub-reader and the source contract of its source (read_until(d, n): `empty-result-only-at-the-delimiter-or-at-the-end`, '
+    '_iter_delimited: chunks concatenate to the view up to the first delimiter) are proved; that the sub-reader then is a flat cursor over V[:first delimiter] follows by '
+    'instantiating the reader contracts with that source (on paper); nested readers are exercised by the bounded stand-in only',
+    'readlines: proved on the list summary (concatenation of the lines = next bytes of the view, stop conditions); that every single element is one line is not stated',
+    'async size_hint: only its harmlessness (chunking differs, content does not) is proved, not that the first chunk has the hinted size',
+    'a string-level cross-check (Part A: bytes as SMT strings, cvc5) is kept for _perform_read only; for _fill_buffer/peek/_read/read it was run during development '
+    '(all discharged by cvc5 except the _read finding, but some obligations need 10-20 s) and dropped in favour of the window-domain proofs (Part B/C)',
+]
+TRUSTED = [
+    'the window domain (classes World, Win, Delim, WinList in contracts/C14_readers.py): bytes values as index pairs into one prophecy string, concatenation = adjacency '
+    '(checked at every concatenation), bytes.find via the uninterpreted first-occurrence function with ground instances of its defining property',
+    'ghost stubs ReadFunc / WReadFunc (source callable), ASource / RawSource (async sources), ViewGen (a generator keeping the proved per-yield contract), '
+    'GhostBytesIO (io.BytesIO as append-only accumulator), WSink, Partial (functools.partial)',
+    'pyvc engine additions used here: LoopSpec.lists accepts a contract-supplied list summary; `__pyvc_for_end__` hook at the exhaustion of a stub iterable',
+]
